@@ -7,7 +7,15 @@ Correspondence model <-> sparseSpACE/Function.py:
   (b) analytic integrals: every class offering one, random dyadic boxes; compared with tensor Gauss-Legendre
       quadrature (scipy nodes) of the point evaluation; the polynomial family additionally exactly against the
       Coq model (faithful integral, fixed integral, formal polynomial integral) and its point values.
-The oracle (property predicate on the implementation alone) is evaluated on every case."""
+The oracle (property predicate on the implementation alone) is evaluated on every case.
+
+Envelope (axes of the property's quantifier, see harness/manifest/C12.json): class x parameters x dimension (1..5) x
+HISTORIES ON ONE OBJECT: interleavings of single/batch/empty batch/direct eval_vectorized (2-d and nested 3-d arrays)/
+reset/deactivate/size/debug flag, with points of DIFFERENT DIMENSIONS on one object of a dimension-independent class,
+several objects alive in one process (same class), batch sizes beyond 64/200/1024 (1025, 2049), input forms
+tuple/list/ndarray/int/np.float64/tuple-of-tuples/integer array, near-duplicate points, 0.0/-0.0; analytic integrals on
+one object over several boxes (different dimensions, equal lower corner, repeated box, degenerate box) interleaved with
+evaluations, compared with a fresh object, with quadrature of the scalar eval and of the object's vectorised evaluation."""
 import itertools
 import math
 from fractions import Fraction
@@ -16,19 +24,23 @@ from ..impl import run_impl
 from ..model import run_model
 
 ASSUMPTIONS = [
-    'C12_polynomial1d_integral_is_riemann (only) uses the real-number axioms of the Coq standard library (ClassicalDedekindReals.sig_not_dec, sig_forall_dec, FunctionalExtensionality.functional_extensionality_dep, Classical_Prop.classic) through Coquelicot; every other theorem is closed under the global context',
-    'the abstract method eval is a pure function of the point (modelled as a Section variable; instantiated at run time by the table of the implementation\'s own direct eval values)',
+    'the theorems that link analytic integrals to Riemann integrals (C12_polynomial1d_integral_is_riemann, C12_polynomial_family_integral_is_iterated_riemann, C12_iterated_integral_1d/_2d, C12_cornerpeak_integral_is_iterated_riemann, C12_cornerpeak_eval_is_real_function, C12_productpeak_/_discontinious_/_c0_/_expvar_integral_is_iterated_riemann, C12_separable_iterated_integral) use the real-number axioms of the Coq standard library (ClassicalDedekindReals.sig_not_dec, sig_forall_dec, FunctionalExtensionality.functional_extensionality_dep, Classical_Prop.classic) through Coquelicot; every other theorem is closed under the global context',
+    'iterated Riemann integral over a box (one is_RInt per variable); its identification with the integral over the box (Fubini) is not formalised',
+    'GenzProductPeak/GenzDiscontinious/GenzC0/FunctionExpVar theorems are about real-number transcriptions of the Python loops (not executable, tied to the float code by reading and the numeric cross-check)',
+    'the abstract method eval is a pure function of the point (modelled as a Section variable; instantiated at run time by the table of the scalar eval values of FRESH instances of the class, one instance per point)',
+    'the vectorised evaluation is row-wise (the row of a point does not depend on the other rows): the model is instantiated with the rows that a fresh instance returns for each point alone; math.isclose of check_vectorization modelled as equality (rows isclose to the scalar value are identified)',
     'Python dict keyed by float tuples modelled as association list keyed by exact rationals (0.0 == -0.0, 1 == 1.0 in both)',
     'counter clause checked while caching is on (after deactivate_caching the dictionary content is not compared: the property does not fix it)',
-    'analytic integrals of transcendental classes (Genz family, ExpVar, G, DiagonalDiscont, UQ, Shift, Lambda, base-class quadrature) are cross-checked numerically only (test, not proof); tolerance 1e-8 relative (1e-6 for scipy-quadrature-based, 2e-2 for the discontinuous simplex indicator)',
+    'analytic integrals of transcendental classes (Genz family except CornerPeak, ExpVar, G, DiagonalDiscont, UQ, Shift, Lambda, base-class quadrature) are cross-checked numerically only in the harness (test, not proof); tolerance 1e-8 relative (1e-6 for scipy-quadrature-based, 2e-2 for the discontinuous simplex indicator)',
     'FunctionUQNormal/FunctionUQNormal2 integrals are weighted integrals (not the integral of eval) and are outside the clause; FunctionGeneralizedNormal is excluded by the property (source marks it incorrect)',
     'zero coefficients are excluded for classes that divide by them without handling (GenzCornerPeak, GenzDiscontinious, GenzC0, GenzGaussian); GenzProductPeak needs float coefficients (integer arrays raise on ** -2)',
+    'excluded because the unchanged code raises: points of another dimension on dimension-bound classes (ValueError/IndexError/AssertionError), batches mixing tuples and lists (TypeError unhashable), nested arrays while debug is on, reversed boxes',
 ]
 
 RTOL = 1e-12
 ATOL = 1e-13
 INT_RTOL = 1e-8
-EXC_OF_ERR = {1: ('UnboundLocalError',), 2: ('IndexError',), 3: ('AssertionError', 'ValueError')}
+EXC_OF_ERR = {1: ('UnboundLocalError',), 2: ('IndexError',), 3: ('AssertionError', 'ValueError'), 4: ('AssertionError',)}
 
 # ------------------------------------------------------------------------------------------------ function registry
 # named callables used inside wrapper classes (cases stay JSON-serialisable)
@@ -66,7 +78,7 @@ def build(spec):
     if c == 'FunctionUQNormal': return F.FunctionUQNormal(sub('f'), p['mean'], p['std'], p['a'], p['b'])
     if c == 'FunctionUQNormal2': return F.FunctionUQNormal2(sub('f'), p['mean'], p['std'], p['a'], p['b'])
     if c == 'FunctionUQWeighted': return F.FunctionUQWeighted(sub('f'), sub('w'))
-    if c == 'FunctionCantileverBeamD': return F.FunctionCantileverBeamD()
+    if c == 'FunctionCantileverBeamD': return F.FunctionCantileverBeamD(**{k: p[k] for k in ('width', 'thickness') if k in p})
     if c == 'CustomFunction': return F.CustomFunction(LAMBDAS[p['fn']], output_length=p['olen'])
     if c == 'FunctionG': return F.FunctionG(p['dim'])
     if c == 'FunctionGShifted': return F.FunctionGShifted(p['dim'])
@@ -107,6 +119,79 @@ def dy(rng, lo, hi, bits=3):
 def nz(rng, pos=False):
     v = rng.choice([0.5, 1.0, 1.5, 2.0, 3.0, 0.25])
     return v if pos or rng.random() < 0.6 else -v
+
+
+# classes whose instances accept points of ANY dimension (dim = len(point)); wrappers are dimension-free when their inner
+# functions are. Every other class is bound to len(coeffs)/dim of its constructor: points of another dimension raise
+# (ValueError broadcast / IndexError / AssertionError) or silently ignore the surplus coordinates (FunctionMultilinear,
+# FunctionPolynomial, Polynomial1d, LambdaFunction: eval reads only the first len(coeffs) / the first coordinate).
+DIMFREE_SIMPLE = ['ConstantValue', 'FunctionExpVar', 'FunctionDiagonalDiscont', 'CustomFunction', 'FunctionCustom',
+                  'Polynomial1d', 'LambdaFunction']
+DIMFREE_WRAPPERS = ['FunctionCompose', 'FunctionPower', 'FunctionConcatenate', 'FunctionShift', 'FunctionUQWeighted',
+                    'FunctionPolysPCE', 'FunctionUQNormal2']
+DIMFREE = DIMFREE_SIMPLE + DIMFREE_WRAPPERS
+FREE_INNER = ['FunctionExpVar', 'ConstantValue', 'CustomFunction', 'FunctionDiagonalDiscont']
+MAXD = 6
+
+
+def gen_free_fn(rng, cls=None, for_integral=False, depth=0):
+    """Spec of an instance that accepts points of every dimension 1..MAXD; coordinates in [0, 1]."""
+    cls = cls or rng.choice(DIMFREE_SIMPLE + (DIMFREE_WRAPPERS if depth == 0 else []))
+    inner = lambda pool=FREE_INNER: gen_free_fn(rng, rng.choice(pool), for_integral, depth=1)[0]
+    p = {}
+    if cls == 'ConstantValue':
+        p = {'value': rng.choice([0.0, 1.0, 2.5, -3.0, 3, 0.125])}
+    elif cls == 'CustomFunction':
+        fn = rng.choice(['p2a', 'p2b', 'vec2', 'vec3'] if depth == 0 else ['p2a', 'p2b'])
+        p = {'fn': fn, 'olen': {'vec2': 2, 'vec3': 3}.get(fn, 1)}
+    elif cls == 'FunctionCustom':
+        if for_integral or rng.random() < 0.5:
+            p = {'fn': rng.choice(['p2a', 'p2b'])}
+        else:
+            p = {'fns': rng.sample(['p2a', 'p2b', 'sq1d', 'lin1d'], rng.randrange(1, 4))}
+    elif cls == 'Polynomial1d':
+        p = {'coeffs': [rng.choice([0.0, 1.0, -2.0, 0.5, 3.0]) for _ in range(rng.randrange(0, 6))]}
+    elif cls == 'LambdaFunction':
+        p = {'fn': rng.choice(['sq1d', 'lin1d'])}
+    elif cls == 'FunctionCompose':
+        pool = ['FunctionExpVar', 'ConstantValue'] if for_integral else ['FunctionExpVar', 'ConstantValue', 'CustomFunction']
+        p = {'fs': [[gen_free_fn(rng, rng.choice(pool), for_integral, 2)[0], rng.choice([1.0, -0.5, 2.0, 0.25])]
+                    for _ in range(rng.randrange(1, 4))]}
+        for s, _w in p['fs']:
+            if s['cls'] == 'CustomFunction':
+                s['p'] = {'fn': rng.choice(['p2a', 'p2b']), 'olen': 1}
+    elif cls == 'FunctionPower':
+        p = {'f': inner(['FunctionExpVar', 'CustomFunction', 'ConstantValue']), 'exponent': rng.choice([1, 2, 3])}
+    elif cls == 'FunctionConcatenate':
+        p = {'fs': [inner() for _ in range(rng.randrange(1, 4))]}
+    elif cls == 'FunctionShift':
+        p = {'f': inner(['FunctionExpVar', 'ConstantValue'] if for_integral else ['FunctionExpVar', 'ConstantValue', 'CustomFunction']),
+             'shift': [dy(rng, 0, 1) for _ in range(MAXD)]}
+    elif cls == 'FunctionUQWeighted':
+        p = {'f': inner(['FunctionExpVar', 'ConstantValue']), 'w': inner(['FunctionExpVar', 'ConstantValue'])}
+    elif cls == 'FunctionPolysPCE':
+        k = rng.randrange(1, 3)
+        p = {'f': inner(['FunctionExpVar', 'CustomFunction']), 'polys': [rng.choice(['poly_sum', 'poly_first']) for _ in range(k)],
+             'norms': [rng.choice([1.0, 2.0, 0.5]) for _ in range(k)]}
+    elif cls == 'FunctionUQNormal2':
+        p = {'f': inner(['FunctionExpVar', 'ConstantValue', 'CustomFunction']), 'mean': [0.0, 0.0], 'std': [1.0, 1.0],
+             'a': [-1.0, -1.0], 'b': [1.0, 1.0]}
+    return {'cls': cls, 'p': p}, (0.0, 1.0)
+
+
+def is_dimfree(spec):
+    c, p = spec['cls'], spec.get('p', {})
+    if c in DIMFREE_SIMPLE:
+        return not (c == 'CustomFunction' and p.get('fn') == 'p3') and not (c == 'FunctionCustom' and p.get('fn') == 'p3')
+    if c in ('FunctionPower', 'FunctionShift', 'FunctionPolysPCE', 'FunctionUQNormal2'):
+        return is_dimfree(p['f']) and (c != 'FunctionShift' or len(p['shift']) >= MAXD)
+    if c == 'FunctionUQWeighted':
+        return is_dimfree(p['f']) and is_dimfree(p['w'])
+    if c == 'FunctionCompose':
+        return all(is_dimfree(s) for s, _ in p['fs'])
+    if c == 'FunctionConcatenate':
+        return all(is_dimfree(s) for s in p['fs'])
+    return False
 
 
 def gen_fn(rng, d, cls=None, for_integral=False, depth=0):
@@ -205,48 +290,140 @@ def gen_fn(rng, d, cls=None, for_integral=False, depth=0):
         p = {'fs': fs}
     elif cls in ('FunctionUQ', 'FunctionUQShifted', 'FunctionUQ2'):
         dom = (-1.0, 1.0)
+    elif cls == 'FunctionCantileverBeamD' and rng.random() < 0.6:
+        p = rng.choice([{'width': 10.0}, {'thickness': 4.0}, {'width': 5.0, 'thickness': 1.0}])     # non-default constructor options
+    if cls == 'FunctionCustom' and 'fn' in p and not for_integral and rng.random() < 0.3:
+        p = {'fn': rng.choice(['vec2', 'vec3'])}                   # one callable with several outputs: output_dim given explicitly
+        p['odim'] = {'vec2': 2, 'vec3': 3}[p['fn']]
     return {'cls': cls, 'p': p}, dom
 
 
-def gen_cache_case(rng, cls=None):
-    d = rng.choice([1, 2, 2, 3])
-    if cls in ('FunctionUQ', 'FunctionUQShifted', 'FunctionCantileverBeamD'):
-        d = 3
-    if cls == 'FunctionUQ2':
-        d = 2
-    if cls in ('Polynomial1d', 'LambdaFunction'):
-        d = 1
-    fn, dom = gen_fn(rng, d, cls)
-    if fn['cls'] == 'FunctionCantileverBeamD':
-        dom = (1.0, 2.0)
-    npool = rng.choice([1, 2, 3, 5, 8])
-    pool = [[dy(rng, dom[0], dom[1]) for _ in range(d)] for _ in range(npool)]
-    if rng.random() < 0.3 and dom[0] <= 0.0:
+VEC_OVERRIDE = ('FunctionLinear', 'GenzCornerPeak', 'GenzProductPeak', 'GenzOszillatory', 'GenzDiscontinious', 'GenzC0',
+                'GenzGaussian', 'FunctionExpVar')
+BIG_SIZES = [64, 200, 1024, 1025, 2049]
+FIXED_DIM = {'FunctionUQ': 3, 'FunctionUQShifted': 3, 'FunctionCantileverBeamD': 3, 'FunctionUQ2': 2, 'Polynomial1d': 1,
+             'LambdaFunction': 1}
+
+
+def case_specs(case):
+    return case['fns'] if 'fns' in case else [case['fn']]
+
+
+def _pool(rng, d, dom, n, near=False, zeros=False):
+    pool = []
+    while len(pool) < n:
+        p = [dy(rng, dom[0], dom[1]) for _ in range(d)]
+        pool.append(p)
+    if near and pool:
+        q = list(rng.choice(pool))
+        j = rng.randrange(d)
+        q[j] = q[j] + 2.0 ** -30 if q[j] + 2.0 ** -30 <= dom[1] else q[j] - 2.0 ** -30      # a near-duplicate: a different key
+        pool.append(q)
+    if zeros and dom[0] <= 0.0:
         pool.append([0.0] * d)
         pool.append([-0.0] * d)            # the same dictionary key as 0.0
-    pt = lambda: list(rng.choice(pool))
-    nops = rng.randrange(1, 31)
+    return pool
+
+
+def _integral_pt(p):
+    return all(float(x).is_integer() for x in p)
+
+
+def _form(rng, pts, single):
+    if single:
+        f = rng.choice(['tuple', 'tuple', 'tuple', 'list', 'ndarray', 'npfloat', 'int'])
+        return f if f != 'int' or _integral_pt(pts) else 'tuple'
+    f = rng.choice(['tuple', 'tuple', 'tuple', 'list', 'ndarray', 'tot', 'intarray'])
+    return f if f != 'intarray' or all(_integral_pt(p) for p in pts) else 'ndarray'
+
+
+def gen_cache_case(rng, cls=None, multidim=None, big=None, multiobj=None, debug=None):
+    """Random history. Features (None = drawn): multidim = points of several dimensions on one object (dimension-free
+    classes only), big = one batch size beyond the usual thresholds, multiobj = several objects of the class alive and
+    interleaved, debug = the debug flag is switched during the history."""
+    d = FIXED_DIM.get(cls) or rng.choice([1, 2, 2, 3, 3, 4, 5, 7])
+    free = False
+    if cls in DIMFREE and cls not in FIXED_DIM and (multidim or (multidim is None and rng.random() < 0.5)):
+        fn, dom = gen_free_fn(rng, cls)
+        free = True
+    elif cls is None and (multidim or (multidim is None and rng.random() < 0.25)):
+        fn, dom = gen_free_fn(rng)
+        free = True
+    else:
+        fn, dom = gen_fn(rng, d, cls)
+        if cls in ('Polynomial1d', 'LambdaFunction') and (multidim or (multidim is None and rng.random() < 0.3)):
+            free = True                       # eval reads coordinates[0] only: every dimension >= 1 is accepted
+    if fn['cls'] == 'FunctionCantileverBeamD':
+        dom = (1.0, 2.0)
+    if fn['cls'] in FIXED_DIM and not free:
+        d = FIXED_DIM[fn['cls']]
+    dims = [d]
+    if free:
+        dims = rng.sample([1, 2, 3, 4, 5], rng.choice([2, 2, 3]))
+        d = dims[0]
+    fns = [fn]
+    if multiobj or (multiobj is None and rng.random() < 0.2):
+        for _ in range(rng.choice([1, 1, 2])):
+            if rng.random() < 0.3:
+                fns.append(fn)                   # an equal twin
+            else:
+                fns.append(gen_free_fn(rng, fn['cls'])[0] if free and fn['cls'] in DIMFREE and fn['cls'] not in FIXED_DIM
+                           else gen_fn(rng, d, fn['cls'])[0])
+    near = rng.random() < 0.2
+    pools = {k: _pool(rng, k, dom, rng.choice([1, 2, 3, 5, 8]), near=near, zeros=rng.random() < 0.3) for k in dims}
+    pt = lambda k: list(rng.choice(pools[k]))
+    bigsize = None
+    if big or (big is None and rng.random() < 0.03):
+        bigsize = big if isinstance(big, int) and big > 1 else rng.choice(BIG_SIZES[:2] * 3 + BIG_SIZES[2:])
+    nops = rng.randrange(1, 31) if bigsize is None else rng.randrange(2, 7)
     deact_at = rng.randrange(nops) if rng.random() < 0.3 else None
+    big_at = rng.randrange(nops) if bigsize else None
+    use_debug = debug or (debug is None and rng.random() < 0.2)
+    dbg = False
     ops = []
     for i in range(nops):
+        k = rng.choice(dims)
         if i == deact_at:
             ops.append(['deact'])
             continue
+        if i == big_at:
+            bits = 12
+            lat = set()
+            while len(lat) < bigsize:
+                lat.add(tuple(dom[0] + (dom[1] - dom[0]) * rng.randrange(0, 2 ** bits + 1) / 2 ** bits for _ in range(k)))
+            pts = [list(p) for p in sorted(lat)]
+            rng.shuffle(pts)
+            if rng.random() < 0.5:
+                pts = pts[:-1] + [pts[0]]            # same length, one repeated point
+            ops.append(['batch', pts, rng.choice(['tuple', 'ndarray'])])
+            continue
         r = rng.random()
-        form = rng.choice(['tuple', 'tuple', 'list', 'ndarray'])
-        if r < 0.34:
-            ops.append(['single', pt(), form])
-        elif r < 0.60:
-            ops.append(['batch', [pt() for _ in range(rng.randrange(1, 6))], form])
-        elif r < 0.66:
-            ops.append(['batch', [], rng.choice(['list', 'ndarray'])])
-        elif r < 0.76:
-            ops.append(['vec', [pt() for _ in range(rng.randrange(0, 5))]])
-        elif r < 0.86:
+        if len(fns) > 1 and r < 0.12:
+            ops.append(['obj', rng.randrange(len(fns))])
+        elif use_debug and r < 0.20:
+            dbg = not dbg
+            ops.append(['debug', 1 if dbg else 0])
+        elif r < 0.42:
+            p = pt(k)
+            ops.append(['single', p, _form(rng, p, True)])
+        elif r < 0.64:
+            ps = [pt(k) for _ in range(rng.randrange(1, 6))]
+            ops.append(['batch', ps, _form(rng, ps, False)])
+        elif r < 0.69:
+            ops.append(['batch', [], rng.choice(['list', 'ndarray', 'tuple'])])
+        elif r < 0.78:
+            ops.append(['vec', [pt(k) for _ in range(rng.randrange(0 if len(dims) == 1 else 1, 5))]])
+        elif r < 0.82 and not use_debug:
+            m = rng.randrange(1, 4)
+            ops.append(['vecn', [[pt(k) for _ in range(m)] for _ in range(rng.randrange(1, 4))]])
+        elif r < 0.90:
             ops.append(['reset'])
         else:
             ops.append(['size'])
-    return {'kind': 'cache', 'fn': fn, 'dim': d, 'ops': ops}
+    c = {'kind': 'cache', 'fn': fn, 'dim': d, 'ops': ops}
+    if len(fns) > 1:
+        c['fns'] = fns
+    return c
 
 
 SCALAR_RETURNING = ['FunctionLinear', 'FunctionMultilinear', 'FunctionPolynomial', 'GenzCornerPeak', 'GenzGaussian', 'ConstantValue',
@@ -254,6 +431,8 @@ SCALAR_RETURNING = ['FunctionLinear', 'FunctionMultilinear', 'FunctionPolynomial
 LIST_RETURNING = ['CustomFunction', 'FunctionCustom', 'FunctionPower', 'FunctionPolysPCE', 'FunctionConcatenate', 'FunctionDiagonalDiscont']
 PATTERNS = ['singles-then-batch', 'batch-rest-singles-then-all', 'repeated-batches', 'batch-after-reset', 'batch-then-singles',
             'singles-twice-then-batch-twice']
+# histories that change the DIMENSION of the points on one object (dimension-free classes)
+XPATTERNS = ['xdim-batch-batch', 'xdim-vec-batch', 'xdim-single-batch', 'xdim-reset-between', 'xdim-deact', 'xdim-twins']
 
 
 def gen_structured_case(rng, pattern=None, cls=None):
@@ -261,7 +440,7 @@ def gen_structured_case(rng, pattern=None, cls=None):
     and by the batch path (array rows), then read them back through the other path."""
     pattern = pattern or rng.choice(PATTERNS)
     cls = cls or rng.choice(SCALAR_RETURNING + LIST_RETURNING)
-    d = rng.choice([1, 2, 2, 3])
+    d = rng.choice([1, 2, 2, 3, 4])
     fn, dom = gen_fn(rng, d, cls)
     k = rng.randrange(1, 5)
     pts = []
@@ -269,8 +448,8 @@ def gen_structured_case(rng, pattern=None, cls=None):
         p = [dy(rng, dom[0], dom[1]) for _ in range(d)]
         if p not in pts:
             pts.append(p)
-    f1 = rng.choice(['tuple', 'tuple', 'list', 'ndarray'])
-    f2 = rng.choice(['tuple', 'tuple', 'list', 'ndarray'])
+    f1 = rng.choice(['tuple', 'tuple', 'list', 'ndarray', 'npfloat'])
+    f2 = rng.choice(['tuple', 'tuple', 'list', 'ndarray', 'tot'])
     S = lambda p: ['single', list(p), f1]
     B = lambda ps: ['batch', [list(p) for p in ps], f2]
     if pattern == 'singles-then-batch':
@@ -291,6 +470,36 @@ def gen_structured_case(rng, pattern=None, cls=None):
     return {'kind': 'cache', 'fn': fn, 'dim': d, 'ops': ops, 'pattern': pattern}
 
 
+def gen_xdim_case(rng, pattern=None, cls=None):
+    """ONE object of a dimension-free class used for problems of different dimension, one after the other."""
+    pattern = pattern or rng.choice(XPATTERNS)
+    cls = cls or rng.choice(DIMFREE)
+    fn, dom = gen_free_fn(rng, cls)
+    d1, d2 = rng.sample([1, 2, 3, 4, 5], 2)
+    P = lambda d, n: [[dy(rng, dom[0], dom[1]) for _ in range(d)] for _ in range(n)]
+    p1, p2 = P(d1, rng.randrange(1, 4)), P(d2, rng.randrange(1, 4))
+    f2 = rng.choice(['tuple', 'tuple', 'ndarray'])
+    S = lambda p: ['single', list(p), 'tuple']
+    B = lambda ps: ['batch', [list(p) for p in ps], f2]
+    V = lambda ps: ['vec', [list(p) for p in ps]]
+    c = {'kind': 'cache', 'fn': fn, 'dim': d1, 'pattern': pattern}
+    if pattern == 'xdim-batch-batch':
+        ops = [B(p1), B(p2), ['size']] + [S(p) for p in p2] + [V(p2), B(p1), ['size']]
+    elif pattern == 'xdim-vec-batch':
+        ops = [V(p1), B(p2), V(p2)] + [S(p) for p in p1] + [['size']]
+    elif pattern == 'xdim-single-batch':
+        ops = [S(p) for p in p1] + [B(p2), ['size'], B(p1), V(p1), ['size']]
+    elif pattern == 'xdim-reset-between':
+        ops = [B(p1), ['size'], ['reset'], B(p2), ['size']] + [S(p) for p in p2] + [['reset']] + [S(p) for p in p2] + [B(p2), ['size']]
+    elif pattern == 'xdim-deact':
+        ops = [B(p1), ['deact'], B(p2)] + [S(p) for p in p2] + [V(p2), B(p1)]
+    else:   # two objects of the class: the first sees dimension d1, the twin d2, then crosswise
+        c['fns'] = [fn, fn if rng.random() < 0.5 else gen_free_fn(rng, cls)[0]]
+        ops = [B(p1), ['obj', 1], B(p2), ['size'], ['obj', 0], ['size'], B(p2), ['obj', 1], B(p1)] + [S(p) for p in p1] + [['size']]
+    c['ops'] = ops
+    return c
+
+
 INTEGRAL_CLASSES = ['ConstantValue', 'FunctionDiagonalDiscont', 'FunctionG', 'FunctionGShifted', 'FunctionLinear',
                     'FunctionMultilinear', 'FunctionPolynomial', 'Polynomial1d', 'LambdaFunction', 'GenzCornerPeak',
                     'GenzProductPeak', 'GenzOszillatory', 'GenzDiscontinious', 'GenzDiscontinious2', 'GenzC0',
@@ -302,19 +511,60 @@ SCIPY_QUAD = ('FunctionCustom', 'FunctionUQ2', 'FunctionUQ', 'FunctionUQShifted'
 JUMP_QUAD = ('FunctionUQ2', 'FunctionUQ', 'FunctionUQShifted')   # library value = scipy adaptive quadrature ACROSS a jump
 
 
-def gen_box(rng, d, lo, hi):
+def gen_box(rng, d, lo, hi, degenerate=False):
     a, b = [], []
     for _ in range(d):
         x, y = dy(rng, lo, hi), dy(rng, lo, hi)
         while x == y:
             y = dy(rng, lo, hi)
         a.append(min(x, y)); b.append(max(x, y))
+    if degenerate:
+        k = rng.randrange(d)
+        b[k] = a[k]                     # a box of zero width in one direction: every integral is 0
     return [a, b]
 
 
-def gen_integral_case(rng, cls=None):
+FREE_INTEGRAL = ('ConstantValue', 'FunctionExpVar', 'FunctionDiagonalDiscont', 'FunctionCompose', 'FunctionShift', 'FunctionCustom')
+HIGH_DIM_REFERENCE = ('GenzCornerPeak', 'GenzProductPeak', 'GenzC0', 'GenzGaussian', 'FunctionExpVar', 'GenzOszillatory')
+SEPARABLE = ('GenzProductPeak', 'GenzC0', 'GenzGaussian', 'FunctionExpVar')
+HIGH_DIM_NUMERIC = ('FunctionExpVar', 'GenzCornerPeak', 'GenzProductPeak', 'GenzOszillatory', 'GenzGaussian', 'GenzC0', 'GenzDiscontinious')
+
+
+def _has_expvar(spec):
+    c, p = spec['cls'], spec.get('p', {})
+    if c == 'FunctionExpVar':
+        return True
+    if c == 'FunctionShift':
+        return _has_expvar(p['f'])
+    if c == 'FunctionCompose':
+        return any(_has_expvar(s) for s, _ in p['fs'])
+    return False
+
+
+def _fix_expvar_box(box):
+    # the root singularity at 0 needs geometric refinement, unaffordable for a tensor rule in 3 and more dimensions
+    a, b = box
+    a = [max(x, 0.125) for x in a]
+    b = [max(y, 0.25) for y in b]
+    return [a, [y if y >= x else x + 0.125 for x, y in zip(a, b)]]
+
+
+def gen_integral_case(rng, cls=None, multidim=None, force_d=None):
+    """A HISTORY on one object: evaluations, then analytic integrals over several boxes (for dimension-free classes of
+    different dimension; boxes sharing the lower or the upper corner; a repeated box; a degenerate box), then the
+    evaluations again."""
     cls = cls or rng.choice(INTEGRAL_CLASSES)
     d = rng.choice([1, 2, 2, 2, 3])
+    highdim = False
+    if cls in POLY_CLASSES and cls != 'Polynomial1d' and rng.random() < 0.35:
+        d = rng.choice([4, 5, 6, 7, 8])                 # reference = the formal integral of the Coq model (no quadrature)
+    elif cls in HIGH_DIM_REFERENCE and (force_d or rng.random() < 0.3):
+        # 5..8 dimensions: reference = exact Coq model (GenzCornerPeak), product of one-variable quadratures of the eval of a
+        # fresh instance (separable classes), product of complex one-variable integrals (GenzOszillatory)
+        d = force_d or rng.choice([5, 6, 7, 8])
+        highdim = True
+    elif cls in HIGH_DIM_NUMERIC and rng.random() < 0.12:
+        d = 4
     if cls in ('Polynomial1d', 'LambdaFunction'):
         d = 1
     if cls == 'FunctionUQ2':
@@ -326,22 +576,48 @@ def gen_integral_case(rng, cls=None):
     if d == 3 and cls not in POLY_CLASSES + ('FunctionUQ', 'FunctionUQShifted', 'FunctionCustom', 'FunctionExpVar',
                                              'FunctionDiagonalDiscont', 'FunctionG') and rng.random() < 0.6:
         d = 2
-    fn, dom = gen_fn(rng, d, cls, for_integral=True)
-    if cls in UNIT_CUBE_ONLY:
-        boxes = [[[0.0] * d, [1.0] * d]]
+    free = cls in FREE_INTEGRAL and not force_d and (multidim or (multidim is None and rng.random() < 0.5))
+    if free:
+        fn, dom = gen_free_fn(rng, cls, for_integral=True)
+        dims = rng.sample([2, 3], 2) if cls == 'FunctionCustom' else rng.sample([1, 2, 3, 4], rng.choice([2, 2, 3]))
+        if cls == 'FunctionDiagonalDiscont':
+            dims = rng.sample([1, 2, 3], 2)
     else:
-        lo, hi = dom
-        if cls == 'FunctionShift':
-            lo, hi = 0.0, 1.0
-        boxes = [gen_box(rng, d, lo, hi) for _ in range(2 if d < 3 else 1)]
-        if rng.random() < 0.3:
-            boxes.append([[0.0] * d, [1.0] * d])
-    if cls == 'FunctionExpVar' and d == 3:
-        # the root singularity at 0 needs geometric refinement, unaffordable for a 3-d tensor rule
-        boxes = [[[max(x, 0.125) for x in a], [max(y, 0.25) for y in b]] for a, b in boxes]
-        boxes = [[a, [y if y > x else x + 0.125 for x, y in zip(a, b)]] for a, b in boxes]
-    pts = [[dy(rng, dom[0], dom[1]) for _ in range(d)] for _ in range(3)]
-    return {'kind': 'integral', 'fn': fn, 'dim': d, 'boxes': boxes, 'points': pts}
+        fn, dom = gen_fn(rng, d, cls, for_integral=True)
+        dims = [d]
+    if highdim and not free:
+        if cls == 'GenzCornerPeak':
+            fn['p']['coeffs'] = [rng.choice([0.25, 0.5, 1.0]) for _ in range(d)]       # keeps the inclusion-exclusion well conditioned
+        lat = [0.0, 0.5, 1.0] if cls != 'FunctionExpVar' else [0.25, 0.5, 1.0]
+        a = [rng.choice(lat[:2]) for _ in range(d)]
+        b = [rng.choice([y for y in lat if y > x]) for x in a]
+        pts = [[dy(rng, 0.0, 1.0) for _ in range(d)] for _ in range(2)]
+        return {'kind': 'integral', 'fn': fn, 'dim': d, 'boxes': [[a, b]] + ([[[0.0 if cls != 'FunctionExpVar' else 0.25] * d, [1.0] * d]] if rng.random() < 0.3 else []),
+                'points': pts}
+    boxes = []
+    for k in dims:
+        if cls in UNIT_CUBE_ONLY:
+            bs = [[[0.0] * k, [1.0] * k]]
+        else:
+            lo, hi = dom
+            if cls == 'FunctionShift':
+                lo, hi = 0.0, 1.0
+            nb = 1 if (k >= 3 or len(dims) > 1) else 2
+            bs = [gen_box(rng, k, lo, hi, degenerate=rng.random() < 0.08) for _ in range(nb)]
+            r = rng.random()
+            if r < 0.25 and k <= 2:
+                a0, b0 = bs[0]                      # same lower corner, another upper corner (and vice versa)
+                b1 = [y if rng.random() < 0.5 else min(hi, y + 0.25) for y in b0]
+                bs.append([list(a0), b1] if b1 != b0 else [[max(lo, x - 0.25) for x in a0], list(b0)])
+            elif r < 0.4 and k <= 2:
+                bs.append([[0.0] * k, [1.0] * k])
+            if _has_expvar(fn) and k >= 3:
+                bs = [_fix_expvar_box(bx) for bx in bs]
+        boxes += bs
+    if len(boxes) > 1 and rng.random() < 0.35 and len(boxes[0][0]) <= 2:
+        boxes.append([list(boxes[0][0]), list(boxes[0][1])])          # the first box once more, at the end of the history
+    pts = [[dy(rng, dom[0], dom[1]) for _ in range(k)] for k in dims for _ in range(3 if len(dims) == 1 else 2)]
+    return {'kind': 'integral', 'fn': fn, 'dim': dims[0], 'boxes': boxes, 'points': pts}
 
 
 # ------------------------------------------------------------------------------------------------ implementation workers
@@ -355,66 +631,131 @@ def _norm_value(v):
 
 def _as_form(np, pts, form, d, single):
     if single:
-        return tuple(pts) if form == 'tuple' else (list(pts) if form == 'list' else np.array(pts, dtype=float))
+        if form == 'list': return list(pts)
+        if form == 'ndarray': return np.array(pts, dtype=float)
+        if form == 'npfloat': return tuple(np.float64(x) for x in pts)
+        if form == 'int': return tuple(int(x) for x in pts)
+        return tuple(pts)
     if form == 'ndarray':
         return np.array(pts, dtype=float).reshape((len(pts), d))
+    if form == 'intarray':
+        return np.array([[int(x) for x in p] for p in pts], dtype=int).reshape((len(pts), d))
+    if form == 'tot':
+        return tuple(tuple(p) for p in pts)
     return [tuple(p) if form == 'tuple' else list(p) for p in pts]
+
+
+def _key(p):
+    return tuple(float(x) + 0.0 for x in p)
+
+
+def _op_points(op):
+    k = op[0]
+    if k == 'single': return [op[1]]
+    if k in ('batch', 'vec'): return op[1]
+    if k == 'vecn': return [p for blk in op[1] for p in blk]
+    return []
+
+
+def _exc_record(e):
+    import traceback
+    tb = traceback.extract_tb(e.__traceback__)
+    where = ''
+    for fr in reversed(tb):
+        if 'sparseSpACE' in fr.filename:
+            where = '%s:%d' % (fr.filename.split('sparseSpACE/')[-1], fr.lineno)
+            break
+    return {'st': 'exc', 'exc': type(e).__name__, 'where': where, 'msg': str(e)[:120]}
+
+
+def _calls_check(cls):
+    import inspect
+    import sparseSpACE.Function as F
+    if cls.eval_vectorized is F.Function.eval_vectorized:
+        return False
+    try:
+        return 'check_vectorization' in inspect.getsource(cls.eval_vectorized)
+    except Exception:
+        return cls.__name__ in VEC_OVERRIDE and cls.__name__ != 'FunctionLinear'
 
 
 def impl_cache(case):
     import numpy as np
-    f = build(case['fn'])
-    g = build(case['fn'])            # a second instance: direct evaluation, never called through the cache
-    d = case['dim']
+    specs = case_specs(case)
+    objs = [build(s) for s in specs]         # all objects of the case are alive during the whole history
+    cur = 0
     out = []
-    deact = False
+    val = lambda r: {'st': 'ok', 'shape': list(np.shape(r)), 'vals': [float(x) for x in np.asarray(r, dtype=float).ravel()]}
     for op in case['ops']:
         k = op[0]
+        f = objs[cur]
         rec = {}
         try:
             if k == 'single':
-                r = f(_as_form(np, op[1], op[2], d, True))
-                rec = {'st': 'ok', 'shape': list(np.shape(r)), 'vals': [float(x) for x in np.asarray(r, dtype=float).ravel()]}
+                rec = val(f(_as_form(np, op[1], op[2], len(op[1]), True)))
             elif k == 'batch':
-                r = f(_as_form(np, op[1], op[2], d, False))
-                rec = {'st': 'ok', 'shape': list(np.shape(r)), 'vals': [float(x) for x in np.asarray(r, dtype=float).ravel()]}
+                rec = val(f(_as_form(np, op[1], op[2], len(op[1][0]) if op[1] else case['dim'], False)))
             elif k == 'vec':
-                r = f.eval_vectorized(np.array(op[1], dtype=float).reshape((len(op[1]), d)))
-                rec = {'st': 'ok', 'shape': list(np.shape(r)), 'vals': [float(x) for x in np.asarray(r, dtype=float).ravel()]}
+                d = len(op[1][0]) if op[1] else case['dim']
+                rec = val(f.eval_vectorized(np.array(op[1], dtype=float).reshape((len(op[1]), d))))
+            elif k == 'vecn':
+                rec = val(f.eval_vectorized(np.array(op[1], dtype=float)))
             elif k == 'reset':
                 r = f.reset_dictionary(); rec = {'st': 'ok', 'ret': repr(r)}
             elif k == 'deact':
                 r = f.deactivate_caching(); rec = {'st': 'ok', 'ret': repr(r)}
-                deact = True
             elif k == 'size':
                 rec = {'st': 'ok', 'size': int(f.get_f_dict_size())}
+            elif k == 'debug':
+                f.debug = bool(op[1]); rec = {'st': 'ok'}
+            elif k == 'obj':
+                cur = int(op[1]); f = objs[cur]; rec = {'st': 'ok'}
         except Exception as e:  # exceptions are observables; the sequence goes on
-            import traceback
-            tb = traceback.extract_tb(e.__traceback__)
-            where = ''
-            for fr in reversed(tb):
-                if 'sparseSpACE' in fr.filename:
-                    where = '%s:%d' % (fr.filename.split('sparseSpACE/')[-1], fr.lineno)
-                    break
-            rec = {'st': 'exc', 'exc': type(e).__name__, 'where': where, 'msg': str(e)[:120]}
+            rec = _exc_record(e)
+        rec['obj'] = cur
         rec['size_after'] = int(f.get_f_dict_size())
+        rec['sizes'] = [int(o.get_f_dict_size()) for o in objs]
         keys = f.get_f_dict_points()
         vals = f.get_f_dict_values()
         rec['dict'] = sorted([[float(x) + 0.0 for x in kk], _norm_value(vv)] for kk, vv in zip(keys, vals))
         out.append(rec)
-    # direct evaluation table (fresh instance), for every point mentioned in the case
-    table = {}
+    # direct evaluation tables, per object: scalar eval and (row-wise) eval_vectorized of FRESH instances that have never
+    # seen another point (a fresh instance per point; per dimension when the case mentions many points)
+    cur = 0
+    wanted = [dict() for _ in specs]
     for op in case['ops']:
-        pts = [op[1]] if op[0] == 'single' else (op[1] if op[0] in ('batch', 'vec') else [])
-        for p in pts:
-            key = tuple(float(x) + 0.0 for x in p)
-            if key not in table:
-                try:
-                    table[key] = _norm_value(g.eval(tuple(p)))
-                except Exception as e:
-                    table[key] = ['exc', type(e).__name__]
-    return {'olen': int(f.output_length()), 'steps': out, 'table': [[list(k), v] for k, v in table.items()],
-            'has_vec_override': type(f).eval_vectorized is not __import__('sparseSpACE.Function', fromlist=['Function']).Function.eval_vectorized}
+        if op[0] == 'obj':
+            cur = int(op[1])
+        for p in _op_points(op):
+            wanted[cur].setdefault(_key(p), p)
+    tables, vtables = [], []
+    for oi, spec in enumerate(specs):
+        many = len(wanted[oi]) > 64
+        shared = {}
+        table, vtable = [], []
+        for key, p in wanted[oi].items():
+            if many:
+                g = shared.get(len(p)) or shared.setdefault(len(p), build(spec))
+                gv = shared.get(('v', len(p))) or shared.setdefault(('v', len(p)), build(spec))
+            else:
+                g, gv = build(spec), build(spec)
+            try:
+                ev = _norm_value(g.eval(tuple(p)))
+            except Exception as e:
+                ev = ['exc', type(e).__name__]
+            try:
+                vv = _norm_value(np.asarray(gv.eval_vectorized(np.array([p], dtype=float))))
+            except Exception as e:
+                vv = ['exc', type(e).__name__]
+            table.append([list(key), ev])
+            vtable.append([list(key), vv])
+        tables.append(table)
+        vtables.append(vtable)
+    import sparseSpACE.Function as F
+    return {'olen': int(objs[0].output_length()), 'olens': [int(o.output_length()) for o in objs], 'steps': out,
+            'table': tables[0], 'tables': tables, 'vtables': vtables,
+            'has_vec_override': type(objs[0]).eval_vectorized is not F.Function.eval_vectorized,
+            'calls_check_vectorization': _calls_check(type(objs[0]))}
 
 
 def _breaks(spec, d, a, b):
@@ -456,6 +797,8 @@ def _gl_box(f, a, b, breaks, n):
         for lo, hi in zip(cuts[:-1], cuts[1:]):
             P += list((hi - lo) / 2 * xs + (hi + lo) / 2)
             W += list((hi - lo) / 2 * ws)
+        if len(cuts) < 2:                       # zero width
+            P, W = [a[k]], [0.0]
         per.append((P, W))
     tot = 0.0
     for idx in itertools.product(*[range(len(p[0])) for p in per]):
@@ -502,42 +845,174 @@ def _analytic(f, a, b):
     return {'st': 'ok', 'vals': vals}
 
 
+def _nodes(a, b, breaks, n, midpoint=False):
+    """Tensor quadrature nodes and weights (composite Gauss-Legendre with break points, or the midpoint rule)."""
+    import numpy as np
+    from scipy.special import roots_legendre
+    per = []
+    for k in range(len(a)):
+        if midpoint:
+            P = [a[k] + (b[k] - a[k]) * (i + 0.5) / n for i in range(n)]
+            W = [(b[k] - a[k]) / n] * n
+        else:
+            xs, ws = roots_legendre(n)
+            cuts = sorted(set([a[k], b[k]] + [x for x in breaks[k] if a[k] < x < b[k]]))
+            P, W = [], []
+            for lo, hi in zip(cuts[:-1], cuts[1:]):
+                P += list((hi - lo) / 2 * xs + (hi + lo) / 2)
+                W += list((hi - lo) / 2 * ws)
+            if len(cuts) < 2:                   # zero width
+                P, W = [a[k]], [0.0]
+        per.append((np.array(P, dtype=float), np.array(W, dtype=float)))
+    mesh = np.meshgrid(*[p for p, _ in per], indexing='ij')
+    wm = np.meshgrid(*[w for _, w in per], indexing='ij')
+    P = np.stack([m.ravel() for m in mesh], axis=-1)
+    W = np.ones(P.shape[0])
+    for w in wm:
+        W = W * w.ravel()
+    return P, W
+
+
+def _quad_through(f, P, W, path, olen):
+    """Quadrature of the evaluations of object f obtained through its vectorised path / its batch call."""
+    import numpy as np
+    if path == 'vec':
+        V = np.asarray(f.eval_vectorized(P), dtype=float).reshape((P.shape[0], olen))
+    else:
+        V = np.asarray(f([tuple(float(x) for x in row) for row in P]), dtype=float).reshape((P.shape[0], olen))
+    return [float(x) for x in np.atleast_1d(W @ V)]
+
+
 def _numeric(spec, f, a, b, d):
+    """Numerical integral of the SCALAR eval of f (a fresh instance) + error estimate from two orders."""
     import numpy as np
     if spec['cls'] == 'FunctionDiagonalDiscont':
-        n = {1: 2000, 2: 300, 3: 60}[d]
+        n = {1: 2000, 2: 300, 3: 60, 4: 16}[d]
         v = _midpoint_box(f, a, b, n)
-        return {'vals': [float(x) for x in v], 'err': 2e-2, 'rough': True}
-    n1, n2 = {1: (40, 56), 2: (28, 40), 3: (12, 18)}[d]
+        return {'vals': [float(x) for x in v], 'err': 2e-2, 'rough': True, 'n': n, 'midpoint': True}
+    n1, n2 = {1: (40, 56), 2: (28, 40), 3: (12, 18), 4: (7, 10)}[d]
     br = _breaks(spec, d, a, b)
     if max(len(x) for x in br) > 4:
         n1, n2 = 8, 12        # many geometric pieces (ExpVar at 0): low order per piece suffices
+    if d >= 4:
+        br = [x[:1] for x in br]
     v1 = _gl_box(f, a, b, br, n1)
     v2 = _gl_box(f, a, b, br, n2)
-    return {'vals': [float(x) for x in v2], 'err': float(np.max(np.abs(v1 - v2))), 'rough': False}
+    return {'vals': [float(x) for x in v2], 'err': float(np.max(np.abs(v1 - v2))), 'rough': False, 'n': n2, 'midpoint': False}
+
+
+def _numeric_highdim(spec, evalrows, a, b, d):
+    """Reference for the integral in 5 and more dimensions without a tensor rule.
+    evalrows(P) -> values of the function at the rows of the (n, d) array P (scalar eval of a fresh instance, or the history
+    object's eval_vectorized).
+      separable classes f(x) = prod_d g_d(x_d):  int f = prod_d int f(r | x_d) dx_d / f(r)^(d-1)  (r = centre of the box),
+        separability itself is spot-checked at random points of the box;
+      GenzOszillatory: Re( e^{i 2 pi offset} prod_d int_a^b e^{i c_d x} dx ), the identity cos(s + sum) = Re(e^{is} prod e^{i c x})
+        is spot-checked against the evaluations."""
+    import numpy as np
+    from scipy.special import roots_legendre
+    import random as _random
+    rr = _random.Random(repr((spec, a, b)))
+    a_, b_ = np.array(a, dtype=float), np.array(b, dtype=float)
+    X = np.array([[a[k] + (b[k] - a[k]) * rr.random() for k in range(d)] for _ in range(6)])
+    FX = np.asarray(evalrows(X), dtype=float).ravel()
+    if spec['cls'] == 'GenzOszillatory':
+        cs, off = [float(c) for c in spec['p']['coeffs']], float(spec['p']['offset'])
+        want = np.real(np.exp(1j * 2 * math.pi * off) * np.prod(np.exp(1j * np.array(cs) * X), axis=1))
+        if not np.allclose(FX, want, rtol=1e-9, atol=1e-12):
+            return {'vals': [float('nan')], 'err': float('inf'), 'rough': False, 'n': 0, 'midpoint': False, 'highdim': 'identity-check-failed'}
+        vals = []
+        for n in (24, 32):
+            xs, ws = roots_legendre(n)
+            tot = np.exp(1j * 2 * math.pi * off)
+            for k in range(d):
+                t = (b[k] - a[k]) / 2 * xs + (b[k] + a[k]) / 2
+                tot = tot * np.sum((b[k] - a[k]) / 2 * ws * np.exp(1j * cs[k] * t))
+            vals.append(float(np.real(tot)))
+        return {'vals': [vals[1]], 'err': abs(vals[0] - vals[1]), 'rough': False, 'n': 32, 'midpoint': False, 'highdim': 'complex-product'}
+    r = (a_ + b_) / 2
+    fr = float(np.asarray(evalrows(r.reshape(1, d)), dtype=float).ravel()[0])
+    if not (math.isfinite(fr) and abs(fr) > 1e-300):
+        return None
+    lines = np.repeat(r.reshape(1, d), 6 * d, axis=0)
+    for j in range(6):
+        for k in range(d):
+            lines[j * d + k, k] = X[j, k]
+    FL = np.asarray(evalrows(lines), dtype=float).ravel().reshape(6, d)
+    if not np.allclose(FX * fr ** (d - 1), np.prod(FL, axis=1), rtol=1e-9, atol=0.0):
+        return {'vals': [float('nan')], 'err': float('inf'), 'rough': False, 'n': 0, 'midpoint': False, 'highdim': 'not-separable'}
+    br = _breaks(spec, d, a, b)
+    vals = []
+    for n in (40, 56):
+        xs, ws = roots_legendre(n)
+        tot = 1.0
+        for k in range(d):
+            cuts = sorted(set([a[k], b[k]] + [x for x in br[k] if a[k] < x < b[k]]))
+            ik = 0.0
+            for lo, hi in zip(cuts[:-1], cuts[1:]):
+                t = (hi - lo) / 2 * xs + (hi + lo) / 2
+                P = np.repeat(r.reshape(1, d), n, axis=0)
+                P[:, k] = t
+                ik += float(np.sum((hi - lo) / 2 * ws * np.asarray(evalrows(P), dtype=float).ravel()))
+            tot *= ik
+        vals.append(tot / fr ** (d - 1))
+    return {'vals': [vals[1]], 'err': abs(vals[0] - vals[1]), 'rough': False, 'n': 56, 'midpoint': False, 'highdim': 'separable-product'}
+
+
+def _point_record(f, spec, p):
+    """eval of a fresh instance; single and batch call on the history object f"""
+    import numpy as np
+    try:
+        ev = _norm_value(build(spec).eval(tuple(p)))
+        one = [float(x) for x in np.asarray(f(tuple(p)), dtype=float).ravel()]
+        bat = [float(x) for x in np.asarray(f([tuple(p)]), dtype=float).ravel()]
+        return {'st': 'ok', 'eval': ev, 'call': one, 'batch': bat}
+    except Exception as e:
+        return {'st': 'exc', 'exc': type(e).__name__}
 
 
 def impl_integral(case):
     import numpy as np
-    spec, d = case['fn'], case['dim']
-    f = build(spec)
-    res = {'boxes': [], 'points': []}
+    spec = case['fn']
+    f = build(spec)                      # THE object of the history
+    olen = int(f.output_length())
+    res = {'boxes': [], 'points': [], 'points_after': [], 'olen': olen}
+    for p in case['points']:
+        res['points'].append(_point_record(f, spec, p))
     for a, b in case['boxes']:
-        rec = {'analytic': _analytic(build(spec), a, b), 'numeric': _numeric(spec, f, a, b, d), 'components': []}
-        if spec['cls'] == 'FunctionCompose':
+        d = len(a)
+        exact_only = (spec['cls'] in POLY_CLASSES and d >= 4) or (spec['cls'] == 'GenzCornerPeak' and d >= 5)
+        fresh = build(spec)
+        rec = {'analytic': _analytic(f, a, b), 'analytic_fresh': _analytic(build(spec), a, b), 'components': [], 'through': {}}
+        if d >= 5 and not exact_only:
+            rec['numeric'] = _numeric_highdim(spec, lambda P: [fresh.eval(tuple(float(x) for x in row)) for row in P], a, b, d)
+            if rec['numeric'] is not None and math.isfinite(rec['numeric']['err']):
+                try:        # the same reference through the history object's vectorised evaluation
+                    th = _numeric_highdim(spec, lambda P: np.asarray(f.eval_vectorized(P), dtype=float).reshape((P.shape[0], olen))[:, 0], a, b, d)
+                    rec['through']['vec'] = {'st': 'ok', 'vals': th['vals'], 'npoints': 56 * d}
+                except Exception as e:
+                    rec['through']['vec'] = _exc_record(e)
+            res['boxes'].append(rec)
+            continue
+        rec['numeric'] = None if exact_only else _numeric(spec, fresh, a, b, d)
+        if spec['cls'] == 'FunctionCompose' and not exact_only:
             for s, _w in spec['p']['fs']:
                 g = build(s)
                 rec['components'].append({'cls': s['cls'], 'analytic': _analytic(g, a, b), 'numeric': _numeric(s, g, a, b, d)})
+        if rec['numeric'] is not None and not (d == 4 and rec['numeric']['midpoint']):
+            # the same rule through the history object's vectorised evaluation and (small rules) its batch call
+            nu = rec['numeric']
+            P, W = _nodes(a, b, _breaks(spec, d, a, b) if d < 4 else [x[:1] for x in _breaks(spec, d, a, b)], nu['n'], nu['midpoint'])
+            for path in ('vec', 'batch'):
+                if path == 'batch' and P.shape[0] > 5000:
+                    continue
+                try:
+                    rec['through'][path] = {'st': 'ok', 'vals': _quad_through(f, P, W, path, olen), 'npoints': int(P.shape[0])}
+                except Exception as e:
+                    rec['through'][path] = _exc_record(e)
         res['boxes'].append(rec)
-    g = build(spec)
     for p in case['points']:
-        try:
-            ev = _norm_value(g.eval(tuple(p)))
-            one = [float(x) for x in np.asarray(g(tuple(p)), dtype=float).ravel()]
-            bat = [float(x) for x in np.asarray(g([tuple(p)]), dtype=float).ravel()]
-            res['points'].append({'st': 'ok', 'eval': ev, 'call': one, 'batch': bat})
-        except Exception as e:
-            res['points'].append({'st': 'exc', 'exc': type(e).__name__})
+        res['points_after'].append(_point_record(f, spec, p))
     return res
 
 
@@ -557,28 +1032,51 @@ def finite(xs):
     return all(isinstance(x, (int, float)) and math.isfinite(x) for x in xs)
 
 
+def wire_op(op):
+    k = op[0]
+    if k == 'single':
+        return [0, [sx.rat(x) for x in op[1]]]
+    if k == 'batch':
+        return [1, [[sx.rat(x) for x in p] for p in op[1]]]
+    if k == 'vec':
+        return [2, [[sx.rat(x) for x in p] for p in op[1]]]
+    if k == 'debug':
+        return [6, 1 if op[1] else 0]
+    return [{'reset': 3, 'deact': 4, 'size': 5}[k]]
+
+
 def wire_ops(ops):
-    w = []
-    for op in ops:
-        k = op[0]
-        if k == 'single':
-            w.append([0, [sx.rat(x) for x in op[1]]])
-        elif k == 'batch':
-            w.append([1, [[sx.rat(x) for x in p] for p in op[1]]])
-        elif k == 'vec':
-            w.append([2, [[sx.rat(x) for x in p] for p in op[1]]])
-        else:
-            w.append([{'reset': 3, 'deact': 4, 'size': 5}[k]])
-    return w
+    return [wire_op(op) for op in ops if op[0] not in ('obj', 'vecn', 'debug')]
+
+
+def project_ops(case):
+    """Per object: the indices (into case['ops']) of the operations addressed to it that the machine models know
+    (everything but the object switch and the nested-array call, which does not touch the machine state)."""
+    n = len(case_specs(case))
+    per = [[] for _ in range(n)]
+    cur = 0
+    for i, op in enumerate(case['ops']):
+        if op[0] == 'obj':
+            cur = int(op[1])
+        elif op[0] != 'vecn':
+            per[cur].append(i)
+    return per
 
 
 def qf(v):
     return float(sx.q(v))
 
 
+def np_prod(xs):
+    r = 1.0
+    for x in xs:
+        r *= float(x)
+    return r
+
+
 def cmp_step(op, m, i, olen):
     """Compare one step of the model (decoded wire) with the implementation record. Returns list of (observable, detail)."""
-    mres, msize, mdict, mcache = m
+    mres, msize, mdict, mcache = m[:4]
     diffs = []
     tag = mres[0]
     if tag == -1:
@@ -600,7 +1098,7 @@ def cmp_step(op, m, i, olen):
         elif not close_list(flat, i['vals']):
             diffs.append(('values', 'implementation %s, model (= direct eval) %s' % (i['vals'][:6], flat[:6])))
     elif tag == 3:
-        if i.get('ret') != 'None':
+        if op[0] in ('reset', 'deact') and i.get('ret') != 'None':
             diffs.append(('return', 'expected None, got %s' % i.get('ret')))
     elif tag == 5:
         if mcache and i.get('size') != mres[1]:
@@ -621,94 +1119,155 @@ def _short(i):
     return ('%s at %s' % (i['exc'], i.get('where'))) if i['st'] == 'exc' else 'returns shape %s' % (i.get('shape'),)
 
 
+def _bucket(n):
+    for lim, name in ((0, '0'), (1, '1'), (5, '2-5'), (63, '6-63'), (199, '64-199'), (1023, '200-1023'), (1024, '1024')):
+        if n <= lim:
+            return name
+    return '1025+'
+
+
 def oracle_cache(case, r):
-    """The property's predicate on the implementation alone. Returns list of (kind, sig, step, detail)."""
-    olen = r['olen']
-    tab = {tuple(k): v for k, v in r['table']}
-    ev = lambda p: tab[tuple(float(x) + 0.0 for x in p)]
+    """The property's predicate on the implementation alone. Returns list of (kind, sig, step, detail).
+    Reference values: the scalar eval of FRESH instances (r['tables'], one per object of the case)."""
+    specs = case_specs(case)
+    olens = r.get('olens') or [r['olen']] * len(specs)
+    tabs = [{tuple(k): v for k, v in t} for t in (r.get('tables') or [r['table']])]
     bad = []
-    seen = set()
-    on = True
-    cls = case['fn']['cls']
-    if any(v and v[0] != 'exc' and len(v) != olen for v in tab.values()):
-        # the declared output length is wrong: every call fails; report that and nothing else
-        for step, op in enumerate(case['ops']):
-            if op[0] in ('single', 'batch', 'vec') and op[1]:
-                p0 = op[1] if op[0] == 'single' else op[1][0]
-                return [('declared-output-length-wrong', {'cls': cls}, step,
-                         'eval returns %d components, output_length() declares %d' % (len(ev(p0)), olen))]
-        return []
+    seen = [set() for _ in specs]
+    on = [True] * len(specs)
+    dims_seen = [set() for _ in specs]
+    cur = 0
+    for oi, tab in enumerate(tabs):
+        if any(v and v[0] != 'exc' and len(v) != olens[oi] for v in tab.values()):
+            # the declared output length is wrong: every call fails; report that and nothing else
+            c2 = 0
+            for step, op in enumerate(case['ops']):
+                if op[0] == 'obj':
+                    c2 = int(op[1])
+                pts = _op_points(op)
+                if c2 == oi and pts:
+                    return [('declared-output-length-wrong', {'cls': specs[oi]['cls']}, step,
+                             'eval returns %d components, output_length() declares %d' % (len(tab[_key(pts[0])]), olens[oi]))]
+            return []
     for step, (op, i) in enumerate(zip(case['ops'], r['steps'])):
         k = op[0]
-        if k in ('single', 'batch', 'vec'):
-            pts = [op[1]] if k == 'single' else op[1]
+        if k == 'obj':
+            cur = int(op[1])
+        olen = olens[cur]
+        cls = specs[cur]['cls']
+        ev = lambda p: tabs[cur][_key(p)]
+        if k in ('single', 'batch', 'vec', 'vecn'):
+            pts = _op_points(op)
             want = [ev(p) for p in pts]
+            xdim = bool(pts) and bool(dims_seen[cur] - {len(pts[0])})       # the object has seen another dimension before
+            if pts:
+                dims_seen[cur].add(len(pts[0]))
             if any(w and w[0] == 'exc' for w in want):
                 continue   # direct evaluation itself is undefined at this point
-            if any(len(w) != olen for w in want):
-                bad.append(('declared-output-length-wrong', {'cls': cls}, step,
-                            'eval returns %d components, output_length() declares %d' % (len(want[0]), olen)))
-                continue
             if i['st'] != 'ok':
-                if k == 'single' and not on and i['exc'] == 'UnboundLocalError':
+                if k == 'single' and not on[cur] and i['exc'] == 'UnboundLocalError':
                     bad.append(('single-point-cache-off-raises', {'exc': i['exc']}, step, i.get('msg')))
                 elif k == 'batch' and not pts and i['exc'] == 'IndexError':
                     bad.append(('empty-batch-raises', {'exc': i['exc']}, step, i.get('msg')))
                 else:
-                    bad.append(('call-raises', {'exc': i['exc'], 'op': k, 'cache_on': on, 'empty': not pts}, step, i.get('msg')))
+                    bad.append(('call-raises', {'exc': i['exc'], 'op': k, 'cache_on': on[cur], 'empty': not pts,
+                                                'big': len(pts) >= 64}, step, i.get('msg')))
                 continue
-            shape = [olen] if k == 'single' else [len(pts), olen]
-            ok_shape = i['shape'] == shape or (k == 'vec' and olen == 1 and i['shape'] == [len(pts)])
-            if not ok_shape:
-                bad.append(('shape-differs', {'op': k, 'empty': not pts}, step, 'shape %s, expected %s' % (i['shape'], shape)))
+            if k == 'single':
+                shapes = [[olen]]
+            elif k == 'batch':
+                shapes = [[len(pts), olen]]
+            elif k == 'vec':
+                shapes = [[len(pts), olen]] + ([[len(pts)]] if olen == 1 else [])
+            else:
+                outer = [len(op[1]), len(op[1][0])]
+                shapes = [outer + [olen]] + ([outer] if olen == 1 else [])
+            if i['shape'] not in shapes:
+                bad.append(('shape-differs', {'op': k, 'empty': not pts}, step, 'shape %s, expected %s' % (i['shape'], shapes[0])))
             elif not close_list([x for w in want for x in w], i['vals']):
-                bad.append(('value-differs', {'op': k, 'cache_on': on}, step,
-                            'returned %s, direct eval %s' % (i['vals'][:6], [x for w in want for x in w][:6])))
-            if k != 'vec' and i['st'] == 'ok' and (on or k == 'batch'):
+                got, exp = i['vals'], [x for w in want for x in w]
+                j = next((j for j, (x, y) in enumerate(zip(got, exp)) if not close(x, y)), 0)
+                bad.append(('value-differs', {'op': k, 'cache_on': on[cur], 'other_dimension_before': xdim,
+                                              'several_objects': len(specs) > 1, 'big': len(pts) >= 64}, step,
+                            'component %d of %d: returned %r, direct eval of a fresh instance %r' % (j, len(exp), got[j], exp[j])))
+            if k in ('single', 'batch') and i['st'] == 'ok' and (on[cur] or k == 'batch'):
                 for p in pts:
-                    seen.add(tuple(float(x) + 0.0 for x in p))
+                    seen[cur].add(_key(p))
         elif i['st'] != 'ok':
-            bad.append(('call-raises', {'exc': i['exc'], 'op': k, 'cache_on': on, 'empty': False}, step, i.get('msg')))
+            bad.append(('call-raises', {'exc': i['exc'], 'op': k, 'cache_on': on[cur], 'empty': False, 'big': False}, step, i.get('msg')))
         elif k == 'reset':
-            seen = set()
+            seen[cur] = set()
         elif k == 'deact':
-            on = False
-        if on and i['size_after'] != len(seen):
-            bad.append(('counter-differs', {'op': k}, step, 'get_f_dict_size() = %d, distinct points since reset = %d' % (i['size_after'], len(seen))))
-        if on and k == 'size' and i['st'] == 'ok' and i['size'] != len(seen):
-            bad.append(('counter-differs', {'op': k}, step, 'returned %d, distinct points = %d' % (i['size'], len(seen))))
+            on[cur] = False
+        if any(b_[0] == 'counter-differs' for b_ in bad):
+            pass                    # the counter is reported once per case (a wrong dictionary stays wrong)
+        elif on[cur] and i['size_after'] != len(seen[cur]):
+            bad.append(('counter-differs', {'op': k, 'several_objects': len(specs) > 1}, step,
+                        'get_f_dict_size() = %d, distinct points since reset = %d' % (i['size_after'], len(seen[cur]))))
+        elif on[cur] and k == 'size' and i['st'] == 'ok' and i['size'] != len(seen[cur]):
+            bad.append(('counter-differs', {'op': k, 'several_objects': len(specs) > 1}, step,
+                        'returned %d, distinct points = %d' % (i['size'], len(seen[cur]))))
+        else:
+            for oi in range(len(specs)):
+                if oi != cur and on[oi] and i.get('sizes') and i['sizes'][oi] != len(seen[oi]):
+                    bad.append(('counter-differs', {'op': k, 'several_objects': True, 'other_object': True}, step,
+                                'object %d: get_f_dict_size() = %d after an operation on object %d, distinct points = %d'
+                                % (oi, i['sizes'][oi], cur, len(seen[oi]))))
+                    break
     return bad
 
 
 _SHRUNK = {}
+_SHRINK_T = [0.0]
+SHRINK_BUDGET_S = 50.0        # total wall time spent on shrinking per run (each round costs a pool of workers)
+
+
+def _same_failure(b, kind, sig):
+    """Shrinking keeps the kind of the violation and the structural part of its signature (operation, caching state)."""
+    if b[0] != kind:
+        return False
+    return sig is None or all(b[1].get(k) == sig.get(k) for k in ('op', 'cache_on', 'exc', 'cls', 'other_object'))
 
 
 def shrink_cache(case, kind, step, key=None, sig=None):
     """Greedy shrinking of an op sequence: the shrunk case must still show a violation of the same kind (oracle).
-    Only the first occurrence of a violation group per run is shrunk (each round costs a pool of workers)."""
+    Only the first occurrence of a violation group per run is shrunk, within a total time budget."""
+    import time
     best = dict(case, ops=case['ops'][:step + 1])
     _SHRUNK[key] = _SHRUNK.get(key, 0) + 1
-    if _SHRUNK[key] > 1:
+    if _SHRUNK[key] > 1 or len(_SHRUNK) > 12:
         return best
-    for _round in range(6):
+    for _round in range(8):
+        if _SHRINK_T[0] > SHRINK_BUDGET_S:
+            break
+        t0 = time.time()
         cands = []
         for j in range(len(best['ops']) - 1):
             cands.append(dict(best, ops=best['ops'][:j] + best['ops'][j + 1:]))
         for j, op in enumerate(best['ops']):
             if op[0] in ('batch', 'vec') and len(op[1]) > 1:
-                for t in range(len(op[1])):
-                    cands.append(dict(best, ops=best['ops'][:j] + [[op[0], op[1][:t] + op[1][t + 1:]] + op[2:]] + best['ops'][j + 1:]))
+                n = len(op[1])
+                subs = [op[1][:n // 2], op[1][n // 2:]]
+                if n <= 8:
+                    subs += [op[1][:t] + op[1][t + 1:] for t in range(n)]
+                else:
+                    subs += [op[1][:-1], op[1][1:]]
+                for sub in subs:
+                    cands.append(dict(best, ops=best['ops'][:j] + [[op[0], sub] + op[2:]] + best['ops'][j + 1:]))
         if not cands:
             break
         res = run_impl(impl_cache, cands, limit=60)
+        _SHRINK_T[0] += time.time() - t0
         better = None
         for c, (st, r) in zip(cands, res):
-            if st == 'ok' and any(b[0] == kind and (sig is None or b[1] == sig) for b in oracle_cache(c, r)):
+            if st == 'ok' and any(_same_failure(b, kind, sig) for b in oracle_cache(c, r)):
                 if better is None or len(str(c['ops'])) < len(str(better['ops'])):
                     better = c
         if better is None:
             break
         best = better
+    if 'fns' in best and not any(op[0] == 'obj' for op in best['ops']):
+        best = {k: v for k, v in best.items() if k != 'fns'}
     return best
 
 
@@ -736,33 +1295,37 @@ def feature(spec, d):
     return ''
 
 
-def judge_integral(chk, case, bi, spec, d, a, b, an, nu, exact=None, cur=None, fixd=None):
+def judge_integral(chk, case, bi, spec, d, a, b, an, nu, exact=None, cur=None, fixd=None, exact_tol=(1e-12, 1e-13)):
     """Property clause: analytic integral == numerically computed integral of the point evaluation.
-    exact: the formal polynomial integral from the Coq model (Fraction) when available."""
+    exact: the formal polynomial integral from the Coq model (Fraction) when available; nu None: no quadrature."""
     cls = spec['cls']
     sig = {'cls': cls, 'feature': feature(spec, d)}
     fc = {'kind': 'integral', 'fn': spec, 'dim': d, 'boxes': [[a, b]], 'points': []}
     if an['st'] == 'none':
         chk.violation('oracle:analytic_integral_equals_numeric', 'analytic-integral-none', {'cls': cls}, fc,
-                      dict(analytic=None, numeric=nu['vals'], exact=str(exact)))
+                      dict(analytic=None, numeric=nu and nu['vals'], exact=str(exact)))
         return 'none'
     if an['st'] == 'exc':
         chk.violation('oracle:analytic_integral_equals_numeric', 'analytic-integral-raises', dict(sig, exc=an['exc']), fc,
-                      dict(analytic=an, numeric=nu['vals']))
+                      dict(analytic=an, numeric=nu and nu['vals']))
         return 'exc'
-    tol_r = 2e-2 if nu['rough'] else (1e-3 if cls in JUMP_QUAD else 1e-6 if cls in SCIPY_QUAD else INT_RTOL)
-    if not nu['rough'] and nu['err'] > 0.05 * tol_r * (1.0 + max(abs(x) for x in nu['vals'])):
+    if nu is None and exact is None:
+        return 'unreliable'
+    rough = bool(nu and nu['rough'])
+    tol_r = 2e-2 if rough else (1e-3 if cls in JUMP_QUAD else 1e-6 if cls in SCIPY_QUAD else INT_RTOL)
+    if nu is not None and not rough and nu['err'] > 0.05 * tol_r * (1.0 + max(abs(x) for x in nu['vals'])):
         chk.count('integral:quadrature-unreliable')
         if exact is None:
             return 'unreliable'
-    ref = nu['vals']
-    if len(an['vals']) == 1 and len(ref) > 1:
+        nu = None
+    ref = nu['vals'] if nu is not None else None
+    if ref is not None and len(an['vals']) == 1 and len(ref) > 1:
         an = dict(an, vals=an['vals'] * len(ref))       # a scalar result stands for all output components
-    ok_num = len(ref) == len(an['vals']) and all(close(x, y, tol_r, tol_r) for x, y in zip(an['vals'], ref))
+    ok_num = ref is None or (len(ref) == len(an['vals']) and all(close(x, y, tol_r, tol_r) for x, y in zip(an['vals'], ref)))
     ok_exact = True
     if exact is not None:
-        ok_exact = len(an['vals']) == 1 and close(an['vals'][0], float(exact), 1e-12, 1e-13)
-        if not close(ref[0], float(exact), tol_r, tol_r):
+        ok_exact = len(an['vals']) == 1 and close(an['vals'][0], float(exact), exact_tol[0], exact_tol[1])
+        if ref is not None and not close(ref[0], float(exact), tol_r, tol_r):
             chk.violation('corr:C12/quadrature_vs_formal_integral', 'numeric-vs-formal-integral', sig, fc,
                           dict(numeric=ref, formal=str(exact)), failing_input=False)
     if ok_num and ok_exact:
@@ -771,7 +1334,7 @@ def judge_integral(chk, case, bi, spec, d, a, b, an, nu, exact=None, cur=None, f
     if cur is not None:
         s2['matches_coded_formula'] = bool(cur[0] == 0 and close(an['vals'][0], qf(cur[1]), 1e-12, 1e-13))
     chk.violation('oracle:analytic_integral_equals_numeric', 'analytic-integral-wrong', s2, fc,
-                  dict(analytic=an['vals'], numeric=ref, quadrature_error_estimate=nu['err'],
+                  dict(analytic=an['vals'], numeric=ref, quadrature_error_estimate=nu and nu['err'],
                        formal_integral=(str(exact) if exact is not None else None)))
     return 'wrong'
 
@@ -812,40 +1375,140 @@ CORPUS_INTEGRAL = [
 ]
 
 
+def _tab_wire(tab):
+    return [[[sx.rat(x) for x in k], [sx.rat(x) for x in v]] for k, v in tab]
+
+
+def _canon_vtab(chk, etab, vtab):
+    """check_vectorization compares with math.isclose (rel 1e-9); the model compares exactly: rows of the vectorised table
+    that are isclose to the scalar table are replaced by the scalar rows."""
+    out = []
+    for (k, ev), (_k2, vv) in zip(etab, vtab):
+        if not vv or vv[0] == 'exc' or not finite(vv):
+            if chk is not None:
+                chk.count('cache:vectorised-row-undefined')
+            out.append([k, ev])
+        elif close_list(vv, ev, 1e-9, 0.0):
+            out.append([k, ev])
+        else:
+            out.append([k, vv])
+    return out
+
+
 def check_cache_cases(chk, cases):
     impl = run_impl(impl_cache, cases, limit=120)
     mcases, idx = [], []
+    proj = {}
     for ci, (c, (st, r)) in enumerate(zip(cases, impl)):
         if st != 'ok':
             chk.violation('corr:C12/cache_history', 'worker-failed', {'status': st}, c, dict(impl=str(r)), failing_input=False)
             continue
-        tab = [[[sx.rat(x) for x in k], [sx.rat(x) for x in v]] for k, v in r['table'] if finite(v)]
-        if len(tab) != len(r['table']):
+        if any(not finite(v) for t in r['tables'] for _k, v in t):
             chk.count('cache:nonfinite-or-undefined-eval')
             continue
-        w = wire_ops(c['ops'])
-        mcases.append((0, [r['olen'], [1, 1], tab, w])); idx.append((ci, 'fixed'))
-        mcases.append((0, [r['olen'], [0, 0], tab, w])); idx.append((ci, 'cur'))
-    mres = run_model(12, mcases)
+        per = project_ops(c)
+        proj[ci] = per
+        for oi, idxs in enumerate(per):
+            if not idxs:
+                continue
+            etab = r['tables'][oi]
+            vtab = _canon_vtab(chk, etab, r['vtables'][oi])
+            if any(a[1] != b[1] for a, b in zip(etab, vtab)):
+                chk.count('cache:vectorised-table-differs-from-scalar')
+            ops_o = [c['ops'][i] for i in idxs]
+            mcases.append((2, [r['olens'][oi], [1, 1], 1 if r['calls_check_vectorization'] else 0, _tab_wire(etab), _tab_wire(vtab),
+                               [wire_op(o) for o in ops_o]]))
+            idx.append((ci, oi, 'fixed', idxs))
+            if len(etab) <= 300:        # model of the code before the fixes of the findings (informative only)
+                idxs0 = [i for i in idxs if c['ops'][i][0] != 'debug']
+                mcases.append((0, [r['olens'][oi], [0, 0], _tab_wire(etab), [wire_op(c['ops'][i]) for i in idxs0]]))
+                idx.append((ci, oi, 'cur', idxs0))
+        # nested arrays through the generic eval_vectorized (classes without an override)
+        cur = 0
+        for s, op in enumerate(c['ops']):
+            if op[0] == 'obj':
+                cur = int(op[1])
+            if op[0] == 'vecn':
+                if r['has_vec_override']:
+                    chk.count('cache:vecn-on-override(oracle-only)')
+                else:
+                    mcases.append((3, [r['olens'][cur], _tab_wire(r['tables'][cur]), 2, [[[sx.rat(x) for x in p] for p in blk] for blk in op[1]]]))
+                    idx.append((ci, cur, 'vecn', [s]))
+    # classes with an exact Coq model of eval (GenzCornerPeak): the tables of the implementation against the model's eval
+    cp_q = []
+    for ci, c in enumerate(cases):
+        if ci in proj and c['fn']['cls'] == 'GenzCornerPeak' and len(case_specs(c)) == 1 and impl[ci][1]['tables'][0]:
+            keys_ = [k for k, _v in impl[ci][1]['tables'][0] if len(k) == len(c['fn']['p']['coeffs'])]
+            cp_q.append((ci, keys_))
+    mres_all = run_model(12, mcases + [(4, [[sx.rat(x) for x in cases[ci]['fn']['p']['coeffs']], [[sx.rat(x) for x in k] for k in keys_], []])
+                                       for ci, keys_ in cp_q])
+    mres = mres_all[:len(mcases)]
+    for (ci, keys_), cp in zip(cp_q, mres_all[len(mcases):]):
+        if sx.is_err(cp) or isinstance(cp, tuple):
+            chk.violation('corr:C12/cornerpeak_eval', 'model-rejects', {'cls': 'GenzCornerPeak'}, cases[ci], dict(model=str(cp)[:300]), failing_input=False)
+            continue
+        et = {tuple(k): v for k, v in impl[ci][1]['tables'][0]}
+        vt = {tuple(k): v for k, v in impl[ci][1]['vtables'][0]}
+        for k, (me, mv) in zip(keys_, cp[0]):
+            if me[0] != 0:
+                continue
+            ok = close_list(et[tuple(k)], [qf(me[1])]) and (vt[tuple(k)][:1] == ['exc'] or close_list(vt[tuple(k)], [qf(mv[1])]))
+            chk.count('cornerpeak:table-vs-exact-model=' + ('agrees' if ok else 'differs'))
+            if not ok:
+                chk.violation('corr:C12/cornerpeak_eval', 'cornerpeak-eval-differs', {'cls': 'GenzCornerPeak'},
+                              {'kind': 'cache', 'fn': cases[ci]['fn'], 'dim': len(k), 'ops': [['single', list(k), 'tuple'], ['vec', [list(k)]]]},
+                              dict(point=k, eval=et[tuple(k)], eval_vectorized_row=vt[tuple(k)], model=str(sx.q(me[1]))), failing_input=False)
     by = {}
-    for (ci, v), mr in zip(idx, mres):
-        by.setdefault(ci, {})[v] = mr
+    for (ci, oi, v, idxs), mr in zip(idx, mres):
+        by.setdefault(ci, []).append((oi, v, idxs, mr))
     keys, samples = [], []
-    for ci, mv in sorted(by.items()):
+    for ci, runs in sorted(by.items()):
         c = cases[ci]; r = impl[ci][1]
+        specs = case_specs(c)
         cls = c['fn']['cls']
         chk.count('cache:cls=' + cls); chk.count('cache:dim=%d' % c['dim'])
         chk.count('cache:pattern=' + c.get('pattern', 'random'))
+        chk.count('cache:objects=%d' % len(specs))
+        dims = sorted(set(len(p) for op in c['ops'] for p in _op_points(op)))
+        chk.count('cache:dimensions-on-one-case=%d' % len(dims))
+        if len(dims) > 1:
+            chk.count('cache:xdim-cls=' + cls)
+        for d_ in dims:
+            chk.count('cache:point-dim=%d' % d_)
         for op in c['ops']:
-            chk.count('cache:op=' + op[0] + ('-empty' if op[0] == 'batch' and not op[1] else ''))
+            chk.count('cache:op=' + op[0] + ('-empty' if op[0] in ('batch', 'vec') and not op[1] else ''))
+            if op[0] in ('single', 'batch'):
+                chk.count('cache:form=%s/%s' % (op[0], op[2]))
+            if op[0] in ('batch', 'vec'):
+                chk.count('cache:batchsize=' + _bucket(len(op[1])))
         chk.traces += 1
-        if sx.is_err(mv['fixed']) or isinstance(mv['fixed'], tuple):
-            chk.violation('corr:C12/cache_history', 'model-rejects', {}, c, dict(model=str(mv['fixed'])[:300]), failing_input=False)
+        rejected = [mr for _oi, _v, _idxs, mr in runs if sx.is_err(mr) or isinstance(mr, tuple)]
+        if rejected:
+            chk.violation('corr:C12/cache_history', 'model-rejects', {}, c, dict(model=str(rejected[0])[:300]), failing_input=False)
             continue
         orc = oracle_cache(c, r)
-        # --- correspondence: implementation against the model of the repaired code, then of the code as it is
-        d_fixed = [(s, cmp_step(c['ops'][s], m, i, r['olen'])) for s, (m, i) in enumerate(zip(mv['fixed'], r['steps']))]
-        d_cur = [(s, cmp_step(c['ops'][s], m, i, r['olen'])) for s, (m, i) in enumerate(zip(mv['cur'], r['steps']))]
+        # --- correspondence: implementation against the model of the repaired code, then of the code as it was
+        d_fixed, d_cur = [], []
+        for oi, v, idxs, mr in runs:
+            if v == 'vecn':
+                s = idxs[0]
+                i = r['steps'][s]
+                if mr and mr[0] == -1:
+                    if i['st'] == 'ok':
+                        d_fixed.append((s, [('exception', 'model: wrong row length, implementation returns')]))
+                    continue
+                rows = [[qf(x) for x in row] for blk in mr[0] for row in blk]
+                want_shape = list(mr[1]) + [r['olens'][oi]]
+                if i['st'] != 'ok':
+                    d_fixed.append((s, [('exception', 'implementation raises %s, generic eval_vectorized model returns' % i['exc'])]))
+                elif i['shape'] != want_shape or list(mr[1]) != list(mr[2]):
+                    d_fixed.append((s, [('shape', 'implementation %s, model %s' % (i['shape'], want_shape))]))
+                elif not close_list([x for row in rows for x in row], i['vals']):
+                    d_fixed.append((s, [('values', 'nested eval_vectorized differs from the model')]))
+                continue
+            dl = [(s, cmp_step(c['ops'][s], m, r['steps'][s], r['olens'][oi])) for s, m in zip(idxs, mr)]
+            (d_fixed if v == 'fixed' else d_cur).extend(dl)
+        d_fixed.sort(key=lambda x: x[0]); d_cur.sort(key=lambda x: x[0])
         nf = sum(1 for _, d in d_fixed if d); nc = sum(1 for _, d in d_cur if d)
         if nf == 0:
             chk.count('cache:agrees-with=fixed-model' if nc else 'cache:agrees-with=both-models')
@@ -857,26 +1520,71 @@ def check_cache_cases(chk, cases):
             if key in reported:
                 continue
             reported.add(key)
-            if kind in ('single-point-cache-off-raises', 'empty-batch-raises', 'declared-output-length-wrong'):
+            if kind in ('single-point-cache-off-raises', 'empty-batch-raises', 'declared-output-length-wrong') and len(specs) == 1:
                 pre = [['deact']] if kind == 'single-point-cache-off-raises' else []
                 fc = dict(c, ops=pre + [c['ops'][step]])
             else:
                 fc = shrink_cache(c, kind, step, key, sig)
-            chk.violation('oracle:cache_transparent', kind, sig, fc, dict(step=step, detail=detail, op=c['ops'][step]))
-        if nf and nc and not orc:
-            s, d = next((s, d) for s, d in d_cur if d)
+            chk.violation('oracle:cache_transparent', kind, sig, fc, dict(step=step, detail=detail, op=str(c['ops'][step])[:300]))
+        if nf and not orc:
+            s, d = next((s, d) for s, d in d_fixed if d)
             chk.violation('corr:C12/cache_history', 'cache-history-differs', {'observable': d[0][0], 'op': c['ops'][s][0]},
-                          dict(c, ops=c['ops'][:s + 1]), dict(step=s, differs=d, note='implementation agrees with neither the model of the current code nor of the repaired code; the property predicate found no failing input'),
+                          dict(c, ops=c['ops'][:s + 1]), dict(step=s, differs=d, note='implementation differs from the model of Function.__call__ (instantiated with the scalar and row-wise vectorised values of fresh instances); the property predicate found no failing input'),
                           failing_input=False)
-        elif nf and nc:
+        elif nf:
             # both the oracle and the correspondence disagree: already reported by the oracle with a failing input
             chk.count('cache:corr-and-oracle-disagree')
         kinds = set(op[0] for op in c['ops'])
         if len(c['ops']) >= 4 and ('single' in kinds) and ('batch' in kinds):
-            keys.append(('cache', cls, str(c['fn']['p']), str(c['ops'])))
-        if len(samples) < 2 and len(c['ops']) >= 6 and {'single', 'batch', 'reset'} <= kinds:
+            keys.append(('cache', cls, str(c['fn']['p']), str(c['ops'])[:2000], len(str(c['ops']))))
+        if len(samples) < 2 and len(c['ops']) >= 6 and {'single', 'batch', 'reset'} <= kinds and len(str(c['ops'])) < 1500:
+            samples.append(dict(fn=c['fn'], ops=c['ops'][:8], first_results=[(s.get('vals') or s.get('size') or s.get('exc')) for s in r['steps'][:8]]))
+        elif len(samples) < 3 and len(dims) > 1 and len(str(c['ops'])) < 1500 and c.get('pattern', '').startswith('xdim'):
             samples.append(dict(fn=c['fn'], ops=c['ops'][:8], first_results=[(s.get('vals') or s.get('size') or s.get('exc')) for s in r['steps'][:8]]))
     return keys, samples
+
+
+def oracle_integral_history(case, r):
+    """History clauses on ONE object (implementation alone): the analytic integral over a box does not depend on what the
+    object was used for before; the evaluations through the object's vectorised path / batch call integrate to the same
+    number as the scalar eval of a fresh instance; single and batch calls agree with eval before and after the integrals.
+    Returns list of (kind, sig, truncated case, detail)."""
+    spec = case['fn']
+    cls = spec['cls']
+    bad = []
+    dims_before = set(len(p) for p in case['points'])
+    for bi, ((a, b), rec) in enumerate(zip(case['boxes'], r['boxes'])):
+        d = len(a)
+        hist = dict(case, boxes=case['boxes'][:bi + 1])
+        xdim = bool(dims_before - {d})
+        dims_before.add(d)
+        an, af = rec['analytic'], rec['analytic_fresh']
+        if an['st'] != af['st'] or (an['st'] == 'ok' and not close_list(an['vals'], af['vals'], 1e-12, 1e-13)):
+            bad.append(('analytic-integral-history-dependent', {'cls': cls, 'other_dimension_before': xdim}, hist,
+                        dict(box=[a, b], on_history_object=an, on_fresh_object=af)))
+        nu = rec['numeric']
+        if nu is None:
+            continue
+        tol = 2e-2 if nu['rough'] else 1e-9
+        for path, th in sorted(rec['through'].items()):
+            if th['st'] != 'ok':
+                bad.append(('evaluation-for-quadrature-raises', {'cls': cls, 'path': path, 'exc': th['exc']}, hist,
+                            dict(box=[a, b], through=th)))
+            elif not close_list(th['vals'], nu['vals'], tol, tol * 1e-3):
+                bad.append(('integral-of-evaluations-differs', {'cls': cls, 'path': path, 'other_dimension_before': xdim}, hist,
+                            dict(box=[a, b], quadrature_of_object_evaluations=th['vals'], quadrature_of_fresh_scalar_eval=nu['vals'],
+                                 analytic=an.get('vals'), points=th['npoints'])))
+    for phase in ('points', 'points_after'):
+        for p, pr in zip(case['points'], r[phase]):
+            if pr['st'] == 'ok' and finite(pr['eval']) and not (close_list(pr['call'], pr['eval']) and close_list(pr['batch'], pr['eval'])):
+                bad.append(('value-differs', {'op': 'call-vs-eval', 'cache_on': True, 'after_integrals': phase == 'points_after'},
+                            dict(case, boxes=case['boxes'] if phase == 'points_after' else [], points=case['points']),
+                            dict(point=p, eval=pr['eval'], call=pr['call'], batch=pr['batch'])))
+    for pr, pa in zip(r['points'], r['points_after']):
+        if pr['st'] != pa['st']:
+            bad.append(('call-raises', {'op': 'call-after-integral', 'exc': pa.get('exc'), 'cache_on': True, 'empty': False, 'big': False},
+                        case, dict(before=pr, after=pa)))
+    return bad
 
 
 def check_integral_cases(chk, cases):
@@ -886,27 +1594,55 @@ def check_integral_cases(chk, cases):
         w = poly_wire(c['fn'])
         if w is not None:
             R = sx.rat
-            mcases.append((1, [w, c['dim'], [[R(x) for x in p] for p in c['points']],
-                               [[[R(x) for x in a], [R(x) for x in b]] for a, b in c['boxes']]]))
-            midx.append(ci)
-    mres = dict(zip(midx, run_model(12, mcases)))
+            # one model query per dimension occurring in the case
+            for d in sorted(set([len(a) for a, _ in c['boxes']] + [len(p) for p in c['points']])):
+                mcases.append((1, [w, d, [[R(x) for x in p] for p in c['points'] if len(p) == d],
+                                   [[[R(x) for x in a], [R(x) for x in b]] for a, b in c['boxes'] if len(a) == d]]))
+                midx.append((ci, d))
+    cp_idx = [ci for ci, c in enumerate(cases) if c['fn']['cls'] == 'GenzCornerPeak']
+    R = sx.rat
+    cp_cases = [(4, [[R(x) for x in cases[ci]['fn']['p']['coeffs']], [[R(x) for x in p] for p in cases[ci]['points']],
+                     [[[R(x) for x in a], [R(x) for x in b]] for a, b in cases[ci]['boxes']]]) for ci in cp_idx]
+    allres = run_model(12, mcases + cp_cases)
+    cpres = dict(zip(cp_idx, allres[len(mcases):]))
+    mres = {}
+    for (ci, d), m in zip(midx, allres[:len(mcases)]):
+        mres.setdefault(ci, {})[d] = m
     keys, samples = [], []
     for ci, (c, (st, r)) in enumerate(zip(cases, impl)):
-        spec, d = c['fn'], c['dim']
+        spec = c['fn']
         cls = spec['cls']
-        chk.count('integral:cls=' + cls); chk.count('integral:dim=%d' % d)
+        bdims = [len(a) for a, _ in c['boxes']]
+        chk.count('integral:cls=' + cls)
+        for d in sorted(set(bdims)):
+            chk.count('integral:dim=%d' % d)
+        chk.count('integral:dimensions-on-one-object=%d' % len(set(bdims)))
+        chk.count('integral:boxes-on-one-object=%d' % len(bdims))
+        for j, (a, b) in enumerate(c['boxes']):
+            if any(x == y for x, y in zip(a, b)):
+                chk.count('integral:box=degenerate')
+            if any(a == a2 and b != b2 or b == b2 and a != a2 for a2, b2 in c['boxes'][:j]):
+                chk.count('integral:box=shares-a-corner-with-an-earlier-box')
+            if any(a == a2 and b == b2 for a2, b2 in c['boxes'][:j]):
+                chk.count('integral:box=repeated')
         if st != 'ok':
             chk.violation('corr:C12/integral', 'worker-failed', {'status': st, 'cls': cls}, c, dict(impl=str(r)), failing_input=False)
             continue
         chk.traces += 1
-        m = mres.get(ci)
-        if m is not None and (sx.is_err(m) or isinstance(m, tuple)):
-            chk.violation('corr:C12/integral', 'model-rejects', {'cls': cls}, c, dict(model=str(m)[:300]), failing_input=False)
-            m = None
+        ms = mres.get(ci, {})
+        for d, m in list(ms.items()):
+            if sx.is_err(m) or isinstance(m, tuple):
+                chk.violation('corr:C12/integral', 'model-rejects', {'cls': cls}, c, dict(model=str(m)[:300]), failing_input=False)
+                del ms[d]
+        seen_in_dim = {}
         for bi, ((a, b), rec) in enumerate(zip(c['boxes'], r['boxes'])):
+            d = len(a)
             exact = cur = fixd = None
+            m = ms.get(d)
+            k = seen_in_dim.get(d, 0)
+            seen_in_dim[d] = k + 1
             if m is not None and m[0] == 1:
-                cur, fixd, spec_int = m[2][bi]
+                cur, fixd, spec_int = m[2][k]
                 exact = sx.q(spec_int)
             verdict = None
             if cls == 'FunctionCompose' and rec['components']:
@@ -918,8 +1654,26 @@ def check_integral_cases(chk, cases):
                 if comp_bad:
                     chk.count('integral:compose-with-failing-component')
                     continue
-            verdict = judge_integral(chk, c, bi, spec, d, a, b, rec['analytic'], rec['numeric'], exact, cur, fixd)
+            exact_tol = (1e-12, 1e-13)
+            cp = cpres.get(ci)
+            if cp is not None and (sx.is_err(cp) or isinstance(cp, tuple)) and bi == 0:
+                chk.violation('corr:C12/integral', 'model-rejects', {'cls': cls}, c, dict(model=str(cp)[:300]), failing_input=False)
+            if cp is not None and not sx.is_err(cp) and not isinstance(cp, tuple):
+                mi, mst = cp[1][bi]
+                if mi[0] == 0:                      # exact value of the GenzCornerPeak model (inclusion-exclusion: cancellation in floats)
+                    co = [float(x) for x in spec['p']['coeffs']]
+                    terms = [1.0 / (1.0 + sum((a[k] if cb[k] else b[k]) * co[k] for k in range(d))) for cb in itertools.product([0, 1], repeat=d)]
+                    cond = sum(abs(t) for t in terms) / (math.factorial(d) * abs(float(np_prod(co))))
+                    exact, exact_tol = sx.q(mi[1]), (1e-9, 1e-13 + 32 * d * 2.3e-16 * cond)
+                    chk.count('cornerpeak:integral-dim=%d' % d)
+                    chk.count('cornerpeak:integral-vs-exact-model')
+                    if sx.q(mi[1]) != sx.q(mst):
+                        chk.violation('theorem:cornerpeak_integral_is_iterated_difference', 'model-integral-vs-stencil', {'cls': cls},
+                                      dict(c, boxes=[[a, b]], points=[]), dict(coded=str(sx.q(mi[1])), stencil=str(sx.q(mst))), failing_input=False)
+            verdict = judge_integral(chk, c, bi, spec, d, a, b, rec['analytic'], rec['numeric'], exact, cur, fixd, exact_tol)
             chk.count('integral:verdict=' + str(verdict))
+            for path, th in rec['through'].items():
+                chk.count('integral:quadrature-through-object-%s' % path)
             if m is not None and m[0] == 1 and rec['analytic']['st'] == 'ok':
                 av = rec['analytic']['vals'][0]
                 mc = cur[0] == 0 and close(av, qf(cur[1]), 1e-12, 1e-13)
@@ -927,33 +1681,98 @@ def check_integral_cases(chk, cases):
                 chk.count('integral:formula=' + ('coded+fixed' if mc and mf else 'coded-only' if mc else 'fixed-only' if mf else 'unmodelled'))
             elif m is not None and m[0] == 1 and rec['analytic']['st'] == 'none':
                 chk.count('integral:formula=' + ('coded-only' if cur[0] == 1 else 'unmodelled'))
-        # point values of the polynomial family: exact against the model (dyadic inputs)
-        if m is not None and m[0] == 1:
-            for p, pr, mp in zip(c['points'], r['points'], m[1]):
-                if pr['st'] != 'ok' or mp[0][0] != 0:
-                    if not (pr['st'] != 'ok' and mp[0][0] != 0):
-                        chk.violation('corr:C12/poly_eval', 'poly-eval-status', {'cls': cls}, dict(c, boxes=[], points=[p]),
-                                      dict(impl=pr, model=str(mp)))
+        # history clauses on the one object
+        rep = set()
+        for kind, sig, hist, detail in oracle_integral_history(c, r):
+            key = (kind, str(sorted(sig.items())))
+            if key in rep:
+                continue
+            rep.add(key)
+            chk.violation('oracle:integral_history_independent' if kind != 'value-differs' else 'oracle:cache_transparent',
+                          kind, sig, hist, detail)
+        cp = cpres.get(ci)
+        if cp is not None and not sx.is_err(cp) and not isinstance(cp, tuple):
+            for p, pr, (me, mv) in zip(c['points'], r['points'], cp[0]):
+                if pr['st'] != 'ok' or me[0] != 0:
                     continue
-                mv = sx.q(mp[0][1]); den = sx.q(mp[1])
-                got = pr['eval']
-                if len(got) != 1 or not close(got[0], float(mv)):
-                    chk.violation('corr:C12/poly_eval', 'poly-eval-differs', {'cls': cls}, dict(c, boxes=[], points=[p]),
-                                  dict(impl=got, model=str(mv)))
+                if me != mv:
+                    chk.violation('theorem:cornerpeak_vectorized_eq_scalar', 'model-eval-vs-vectorised', {'cls': cls},
+                                  dict(c, boxes=[], points=[p]), dict(eval=str(me), vec=str(mv)), failing_input=False)
+                if len(pr['eval']) != 1 or not close(pr['eval'][0], qf(me[1])):
+                    chk.violation('corr:C12/cornerpeak_eval', 'cornerpeak-eval-differs', {'cls': cls}, dict(c, boxes=[], points=[p]),
+                                  dict(impl=pr['eval'], model=str(sx.q(me[1]))), failing_input=False)
                 else:
-                    chk.count('poly-eval:' + ('exact' if sx.rat(got[0]) == mv else 'rounded'))
-                if mv != den:
-                    chk.violation('theorem:eval_is_denotation', 'model-eval-vs-denotation', {'cls': cls}, dict(c, boxes=[], points=[p]),
-                                  dict(eval=str(mv), denotation=str(den)), failing_input=False)
-                if not (close_list(pr['call'], got) and close_list(pr['batch'], got)):
-                    chk.violation('oracle:cache_transparent', 'value-differs', {'op': 'call-vs-eval', 'cache_on': True},
-                                  dict(c, boxes=[], points=[p]), dict(eval=got, call=pr['call'], batch=pr['batch']))
-        nontrivial = d >= 2 or cls in ('Polynomial1d', 'LambdaFunction')
+                    chk.count('cornerpeak:eval-vs-exact-model')
+        # point values of the polynomial family: exact against the model (dyadic inputs)
+        seen_in_dim = {}
+        for p, pr in zip(c['points'], r['points']):
+            d = len(p)
+            m = ms.get(d)
+            k = seen_in_dim.get(d, 0)
+            seen_in_dim[d] = k + 1
+            if m is None or m[0] != 1:
+                continue
+            mp = m[1][k]
+            if pr['st'] != 'ok' or mp[0][0] != 0:
+                if not (pr['st'] != 'ok' and mp[0][0] != 0):
+                    chk.violation('corr:C12/poly_eval', 'poly-eval-status', {'cls': cls}, dict(c, boxes=[], points=[p]),
+                                  dict(impl=pr, model=str(mp)))
+                continue
+            mv = sx.q(mp[0][1]); den = sx.q(mp[1])
+            got = pr['eval']
+            if len(got) != 1 or not close(got[0], float(mv)):
+                chk.violation('corr:C12/poly_eval', 'poly-eval-differs', {'cls': cls}, dict(c, boxes=[], points=[p]),
+                              dict(impl=got, model=str(mv)))
+            else:
+                chk.count('poly-eval:' + ('exact' if sx.rat(got[0]) == mv else 'rounded'))
+            if mv != den:
+                chk.violation('theorem:eval_is_denotation', 'model-eval-vs-denotation', {'cls': cls}, dict(c, boxes=[], points=[p]),
+                              dict(eval=str(mv), denotation=str(den)), failing_input=False)
+        nontrivial = max(bdims + [0]) >= 2 or cls in ('Polynomial1d', 'LambdaFunction')
         if nontrivial:
             keys.append(('integral', cls, str(spec['p']), str(c['boxes'])))
-        if len(samples) < 2 and d >= 2 and cls.startswith('Genz') and r['boxes'][0]['analytic']['st'] == 'ok':
+        if len(samples) < 2 and max(bdims + [0]) >= 2 and cls.startswith('Genz') and r['boxes'][0]['analytic']['st'] == 'ok':
             samples.append(dict(fn=spec, box=c['boxes'][0], analytic=r['boxes'][0]['analytic']['vals'], numeric=r['boxes'][0]['numeric']['vals']))
     return keys, samples
+
+
+def replay_integral(c):
+    rc = 0
+    st, r = run_impl(impl_integral, [c], limit=300)[0]
+    print('impl:', st, str(r)[:3000])
+    w = poly_wire(c['fn'])
+    if w is not None:
+        R = sx.rat
+        for d in sorted(set(len(a) for a, _ in c['boxes'])):
+            print('model, dimension %d (coded, fixed, formal):' % d,
+                  run_model(12, [(1, [w, d, [[R(x) for x in p] for p in c['points'] if len(p) == d],
+                                      [[[R(x) for x in a], [R(x) for x in b]] for a, b in c['boxes'] if len(a) == d]])])[0])
+    cpm = None
+    if c['fn']['cls'] == 'GenzCornerPeak':
+        R = sx.rat
+        cpm = run_model(12, [(4, [[R(x) for x in c['fn']['p']['coeffs']], [], [[[R(x) for x in a], [R(x) for x in b]] for a, b in c['boxes']]])])[0]
+        print('exact GenzCornerPeak model (analytic integral as coded, iterated difference / dim!):',
+              [[str(sx.q(mi[1])) if mi[0] == 0 else 'error', str(sx.q(ms))] for mi, ms in cpm[1]] if not sx.is_err(cpm) else cpm)
+    if st == 'ok':
+        for bi, ((a, b), rec) in enumerate(zip(c['boxes'], r['boxes'])):
+            an, nu = rec['analytic'], rec['numeric']
+            if nu is None and cpm is not None and not sx.is_err(cpm) and cpm[1][bi][0][0] == 0 and an['st'] == 'ok':
+                ex = float(sx.q(cpm[1][bi][0][1]))
+                ok = close(an['vals'][0], ex, 1e-6, 1e-13)
+                print('box', a, b, 'analytic', an['vals'], 'exact model', ex, '->', 'holds' if ok else 'VIOLATED')
+                rc = rc or (0 if ok else 1)
+                continue
+            if nu is None:
+                print('box', a, b, 'analytic', an, '(reference: formal integral of the model)')
+                continue
+            ok = an['st'] == 'ok' and all(close(x, y, 2e-2 if nu['rough'] else 1e-6, 1e-6)
+                                          for x, y in zip(an['vals'] * (len(nu['vals']) if len(an['vals']) == 1 else 1), nu['vals']))
+            print('box', a, b, 'analytic', an, 'numeric', nu['vals'], '->', 'holds' if ok else 'VIOLATED')
+            rc = rc or (0 if ok else 1)
+        for kind, sig, hist, detail in oracle_integral_history(c, r):
+            print('history clause violated:', kind, sig, str(detail)[:600])
+            rc = 1
+    return rc
 
 
 ALL_CACHE_CLASSES = ['ConstantValue', 'FunctionDiagonalDiscont', 'FunctionShift', 'FunctionUQNormal', 'FunctionUQNormal2',
@@ -968,40 +1787,80 @@ ALL_CACHE_CLASSES = ['ConstantValue', 'FunctionDiagonalDiscont', 'FunctionShift'
 def run(chk):
     chk.coq_obligations()
     rng = chk.rng
-    n_cache = chk.n(420, 14000)
-    n_int = chk.n(260, 6000)
+    n_cache = chk.n(640, 16000)
+    n_int = chk.n(300, 6000)
     ccases = list(CORPUS_CACHE)
     # every built-in class at least a few times, then free choice
     reps = chk.n(3, 40)
     for cls in ALL_CACHE_CLASSES:
         for _ in range(reps):
             ccases.append(gen_cache_case(rng, cls))
+        if cls in DIMFREE:
+            for _ in range(chk.n(2, 20)):            # one object, points of several dimensions
+                ccases.append(gen_cache_case(rng, cls, multidim=True))
     # short structured histories on one object (single-path entries read by the batch path and vice versa)
     for pat in PATTERNS:
         for cls in SCALAR_RETURNING[:chk.n(6, 12)] + LIST_RETURNING:
             for _ in range(chk.n(1, 12)):
                 ccases.append(gen_structured_case(rng, pat, cls))
+    # one object of a dimension-free class used for problems of different dimension
+    for pat in XPATTERNS:
+        for cls in DIMFREE:
+            for _ in range(chk.n(1, 10)):
+                ccases.append(gen_xdim_case(rng, pat, cls))
+    # batch sizes beyond the usual internal thresholds; several objects alive; debug flag
+    for size in BIG_SIZES:
+        for cls in rng.sample(ALL_CACHE_CLASSES, chk.n(2, 8)) + rng.sample(list(VEC_OVERRIDE), chk.n(1, 4)):
+            if cls not in ('GenzDiscontinious2', 'FunctionCantileverBeamD', 'FunctionUQNormal'):
+                ccases.append(gen_cache_case(rng, cls, big=size, multidim=False))
+    for cls in rng.sample(ALL_CACHE_CLASSES, chk.n(12, 33)):
+        ccases.append(gen_cache_case(rng, cls, multiobj=True))
+    for cls in VEC_OVERRIDE:
+        for _ in range(chk.n(2, 12)):
+            ccases.append(gen_cache_case(rng, cls, debug=True))
     while len(ccases) < n_cache:
-        ccases.append(gen_structured_case(rng) if rng.random() < 0.25 else gen_cache_case(rng))
+        x = rng.random()
+        ccases.append(gen_structured_case(rng) if x < 0.2 else gen_xdim_case(rng) if x < 0.35 else gen_cache_case(rng))
     icases = list(CORPUS_INTEGRAL)
     for cls in INTEGRAL_CLASSES:
         for _ in range(chk.n(4, 60)):
             icases.append(gen_integral_case(rng, cls))
+        if cls in FREE_INTEGRAL:
+            for _ in range(chk.n(3, 30)):             # one object, boxes of different dimension
+                icases.append(gen_integral_case(rng, cls, multidim=True))
+    for cls in HIGH_DIM_REFERENCE:                    # every dimension 5..8 for the classes with a cheap high-dimensional reference
+        for d_ in (5, 6, 7, 8):
+            for _ in range(chk.n(1, 6)):
+                icases.append(gen_integral_case(rng, cls, force_d=d_))
     while len(icases) < n_int:
         icases.append(gen_integral_case(rng))
+    import time
+    t0 = time.time()
     k1, s1 = check_cache_cases(chk, ccases)
+    t1 = time.time()
     k2, s2 = check_integral_cases(chk, icases)
+    chk.extra['phase_seconds'] = dict(cache_histories=round(t1 - t0, 1), integrals=round(time.time() - t1, 1), shrinking=round(_SHRINK_T[0], 1))
     chk.extra['tolerances'] = dict(values_rtol=RTOL, values_atol=ATOL, integral_rtol=INT_RTOL, scipy_quadrature_rtol=1e-6,
                                    simplex_indicator_rtol=2e-2)
     chk.record_cases(len(ccases), k1,
-                     'cache machine: every built-in class of Function.py (33), d 1..3, 1..30 ops from {single, batch, empty batch, '
-                     'direct eval_vectorized, reset, deactivate, size} over a pool of 1..10 dyadic points (repeats, 0.0/-0.0), input forms '
-                     'tuple/list/ndarray; plus structured short histories on one object (singles then the same points as one batch, '
-                     'batch + remaining singles then all as one batch, repeated identical batches, batch after reset, ...) on scalar- '
-                     'and list-returning classes; non-trivial = >= 4 ops with at least one single and one batch call; distinct by (class, params, ops)', s1)
+                     'cache machine: every built-in class of Function.py (33), point dimension 1..5, 1..30 ops from {single, batch, empty batch, '
+                     'direct eval_vectorized on 2-d and nested 3-d arrays, reset, deactivate, size, debug flag, switch to another live object '
+                     'of the class} over pools of 1..10 dyadic points per dimension (repeats, 0.0/-0.0, near-duplicates 2^-30 apart), input '
+                     'forms tuple/list/ndarray/python ints/np.float64/tuple of tuples/integer array; dimension-free classes (ConstantValue, '
+                     'FunctionExpVar, FunctionDiagonalDiscont, CustomFunction, FunctionCustom, Polynomial1d, LambdaFunction and wrappers of '
+                     'them) with points of 2..3 DIFFERENT dimensions on ONE object; batch sizes 64/200/1024/1025/2049; plus structured short '
+                     'histories on one object (singles then the same points as one batch, batch + remaining singles then all as one batch, '
+                     'repeated identical batches, batch after reset, batch in dimension d1 then batch/vec/singles in dimension d2, twins) on '
+                     'scalar- and list-returning classes; reference = scalar eval of fresh instances; non-trivial = >= 4 ops with at least '
+                     'one single and one batch call; distinct by (class, params, ops)', s1)
     chk.record_cases(len(icases), k2,
-                     'analytic integrals: 23 classes offering one, d 1..3, 1..3 dyadic boxes each (unit cube only where the class asserts it); '
-                     'non-trivial = d >= 2 (or a 1-d-only class); distinct by (class, params, boxes)', s2)
+                     'analytic integrals: 23 classes offering one, histories on ONE object: evaluations, 1..5 dyadic boxes (unit cube only '
+                     'where the class asserts it; boxes sharing a corner, repeated box, zero-width box), evaluations again; d 1..3, 4 for the '
+                     'smooth Genz classes/ExpVar, 4..8 for the polynomial family and GenzCornerPeak (reference: exact Coq model), 5..8 for '
+                     'ProductPeak/C0/Gaussian/ExpVar (product of one-variable quadratures of eval) and Oszillatory (complex product); dimension-free '
+                     'classes with boxes of 2..3 different dimensions on one object; each analytic value compared with quadrature of the scalar '
+                     'eval of a fresh instance, with the analytic value of a fresh instance and with the same quadrature through the object\'s '
+                     'eval_vectorized and batch call; non-trivial = some box with d >= 2 (or a 1-d-only class); distinct by (class, params, boxes)', s2)
 
 
 def replay(chk, rep):
@@ -1012,30 +1871,24 @@ def replay(chk, rep):
         print('impl:', st)
         if st != 'ok':
             print(r); return 1
+        print('objects:', case_specs(c))
         for op, s in zip(c['ops'], r['steps']):
-            print('  ', op, '->', {k: v for k, v in s.items() if k != 'dict'})
-        tab = [[[sx.rat(x) for x in k], [sx.rat(x) for x in v]] for k, v in r['table'] if finite(v)]
-        for name, var in (('model of repaired code', [1, 1]), ('model of current code', [0, 0])):
-            mr = run_model(12, [(0, [r['olen'], var, tab, wire_ops(c['ops'])])])[0]
-            print(name + ':', [[m[0], m[1]] for m in mr] if not sx.is_err(mr) else mr)
+            print('  ', str(op)[:200], '->', str({k: v for k, v in s.items() if k not in ('dict', 'sizes')})[:300])
+        per = project_ops(c)
+        for oi, idxs in enumerate(per):
+            if not idxs or any(not finite(v) for _k, v in r['tables'][oi]):
+                continue
+            etab = r['tables'][oi]
+            vtab = _canon_vtab(None, etab, r['vtables'][oi])
+            mr = run_model(12, [(2, [r['olens'][oi], [1, 1], 1 if r['calls_check_vectorization'] else 0, _tab_wire(etab), _tab_wire(vtab),
+                                     [wire_op(c['ops'][i]) for i in idxs]])])[0]
+            print('model of Function.__call__ for object %d (steps %s):' % (oi, idxs),
+                  str([[m[0], m[1]] for m in mr])[:1500] if not sx.is_err(mr) else mr)
         for kind, sig, step, detail in oracle_cache(c, r):
             print('property predicate violated at step', step, ':', kind, sig, detail)
             rc = 1
         if not rc:
             print('property predicate: holds')
     else:
-        st, r = run_impl(impl_integral, [c], limit=300)[0]
-        print('impl:', st, r)
-        w = poly_wire(c['fn'])
-        if w is not None:
-            R = sx.rat
-            print('model (coded, fixed, formal):', run_model(12, [(1, [w, c['dim'], [[R(x) for x in p] for p in c['points']],
-                                                                      [[[R(x) for x in a], [R(x) for x in b]] for a, b in c['boxes']]])])[0])
-        if st == 'ok':
-            for (a, b), rec in zip(c['boxes'], r['boxes']):
-                an, nu = rec['analytic'], rec['numeric']
-                ok = an['st'] == 'ok' and len(an['vals']) == len(nu['vals']) and all(
-                    close(x, y, 2e-2 if nu['rough'] else 1e-6, 1e-6) for x, y in zip(an['vals'], nu['vals']))
-                print('box', a, b, 'analytic', an, 'numeric', nu['vals'], '->', 'holds' if ok else 'VIOLATED')
-                rc = rc or (0 if ok else 1)
+        rc = replay_integral(c)
     return rc
